@@ -64,8 +64,8 @@ fn c03_hex_lengths() {
 }
 
 //@ harness: c03_hll_hex_nonascii
-//@ tier: quick
-//@ timeout: 600
+//@ tier: thorough
+//@ timeout: 2400
 //@ encodes: Hll8::from_hex_string, read_hex!, HEX_INVERSE
 //@ bounds: a 512-byte str whose first two bytes are an arbitrary well-formed 2-byte UTF-8 character or two arbitrary ASCII bytes (the rest concrete hex): no panic
 //@ outside: symbolic bytes at later positions of the 512-byte text (the 256-iteration loop after a symbolic early exit does not finish in budget; the macro body is decided on all 64-byte inputs by c03_hex_id_all)
@@ -109,8 +109,8 @@ fn c03_addr_arb6() {
 }
 
 //@ harness: c03_addr_template
-//@ tier: quick
-//@ timeout: 1200
+//@ tier: thorough
+//@ timeout: 3000
 //@ encodes: Addr::try_from_bytes, Kind::try_from_string_bytes, Pubkey::read_hex
 //@ bounds: the text K:<64 hex digits>:D with K = 1..=5 arbitrary bytes without ':' (symbolic length) and D = 3 arbitrary bytes (':' allowed), two arbitrary bytes inside the author: no panic; when accepted, kind/author/d are the parts
 #[kani::proof]
@@ -221,113 +221,758 @@ fn c03_tags_arb3() {
     tags_arb::<3>();
 }
 
-/// every prefix length in lo..=hi (concrete lengths: pure truncation), arbitrary prior
-/// contents of the output buffer
-fn tags_prefix_lastbyte(text: &[u8], lo: usize, hi: usize) {
-    let mut n = lo;
-    while n <= hi {
-        let mut buf = [0u8; 24];
-        let mut i = 0;
-        while i < n {
-            buf[i] = text[i];
-            i += 1;
+/// the valid text cut after n bytes (pure truncation), arbitrary prior output buffer
+fn tags_prefix_at(n: usize) {
+    let mut out: [u8; 48] = kani::any();
+    match Tags::from_json(&TAGS_T2[..n], &mut out) {
+        Ok((consumed, tags)) => {
+            assert!(consumed <= n);
+            walk_tags(tags);
         }
-        let mut out: [u8; 48] = kani::any();
-        let r = Tags::from_json(&buf[..n], &mut out);
-        match r {
-            Ok((consumed, tags)) => {
-                kani::cover!(n == hi);
-                assert!(consumed <= n);
-                walk_tags(tags);
-            }
-            Err(e) => core::mem::forget(e),
-        }
-        n += 1;
+        Err(e) => core::mem::forget(e),
     }
 }
 
-//@ harness: c03_tags_prefix_lastbyte_0_7 c03_tags_prefix_lastbyte_8_14 c03_tags_prefix_lastbyte_15_20
-//@ tier: quick
-//@ timeout: 1200
-//@ mem: 12
-//@ covers: none
-//@ unwindset: tags_prefix_lastbyte=24; tags_outlens=40; filter_prefix_lastbyte=40; filter_outlens=60; memcmp.0=12; burn_string=12; eat_whitespace=6; read_u64=6; json_unescape=8
-//@ encodes: Tags::from_json, read_tags_array, count_tags, burn_tag, burn_string, read_tag, json_unescape
-//@ bounds: the valid text `[ ["a","b\n"] , [] ]` (20 bytes) cut at every length in the range named by the harness (concrete lengths, all 21 prefixes over the three harnesses), arbitrary prior output buffer: no panic, consumed <= length, accessors total
-//@ outside: arbitrary input bytes at this level (a symbolic byte that the scanners branch on moves the read position: > 10 min, 12 GB; arbitrary bytes are decided on the kernels and, in the thorough tier, by c03_tags_arb2/c03_filter_arb3); symbolic lengths (a symbolic length makes every bounds test fork: > 10 min / 12 GB in the probes)
-#[kani::proof]
-#[kani::unwind(8)]
-#[kani::stub(core::panic::Location::caller, stub_caller)]
-fn c03_tags_prefix_lastbyte_0_7() {
-    tags_prefix_lastbyte(TAGS_T2, 0, 7);
-}
-#[kani::proof]
-#[kani::unwind(8)]
-#[kani::stub(core::panic::Location::caller, stub_caller)]
-fn c03_tags_prefix_lastbyte_8_14() {
-    tags_prefix_lastbyte(TAGS_T2, 8, 14);
-}
-#[kani::proof]
-#[kani::unwind(8)]
-#[kani::stub(core::panic::Location::caller, stub_caller)]
-fn c03_tags_prefix_lastbyte_15_20() {
-    tags_prefix_lastbyte(TAGS_T2, 15, 20);
-}
-
-/// the valid text with one arbitrary value byte, parsed into every output length lo..=hi (concrete)
-fn tags_outlens(lo: usize, hi: usize) {
+/// the valid text parsed into an output buffer of exactly m bytes, arbitrary prior contents
+fn tags_outlen_at(m: usize) {
     let need = 4 + 6 + (2 + 3 + 4) + (2 + 3) + 2; // header, 3 offsets, ["e","ab"], ["p"], []
-    let mut m = lo;
-    while m <= hi {
-        let mut text = [0u8; 21];
-    copy_text!(text, TAGS_T1);
-        let v: u8 = kani::any();
-        kani::assume(v >= 0x20 && v < 0x7f && v != b'"' && v != b'\\');
-        text[8] = v; // the 'a' of "ab"
-        let mut out: [u8; 40] = kani::any(); // arbitrary prior contents
-        let r = Tags::from_json(&text, &mut out[..m]);
-        match r {
-            Ok((consumed, tags)) => {
-                assert!(m >= need);
-                assert!(consumed == TAGS_T1.len());
-                assert!(tags.as_bytes().len() == need);
-                assert!(tags.get_string(0, 1).unwrap()[0] == v);
-                walk_tags(tags);
-            }
-            Err(e) => {
-                assert!(m < need);
-                core::mem::forget(e);
-            }
+    let mut out: [u8; 40] = kani::any();
+    match Tags::from_json(TAGS_T1, &mut out[..m]) {
+        Ok((consumed, tags)) => {
+            assert!(m >= need);
+            assert!(consumed == TAGS_T1.len());
+            assert!(tags.as_bytes().len() == need);
+            walk_tags(tags);
         }
-        m += 1;
+        Err(e) => {
+            assert!(m < need);
+            core::mem::forget(e);
+        }
     }
 }
 
-//@ harness: c03_tags_outlen_0_12 c03_tags_outlen_13_24 c03_tags_outlen_25_34
-//@ tier: quick
-//@ timeout: 1200
-//@ mem: 12
+//@ harness: c03_tags_prefix_0
+//@ tier: seeded
+//@ group: tags_prefix
+//@ timeout: 900
+//@ mem: 10
 //@ covers: none
-//@ unwindset: tags_prefix_lastbyte=24; tags_outlens=40; filter_prefix_lastbyte=40; filter_outlens=60; memcmp.0=12; burn_string=12; eat_whitespace=6; read_u64=6; json_unescape=8
+//@ unwindset: memcmp.0=12; burn_string=12; eat_whitespace=6; json_unescape=8; memchr=12; walk_tags=6
+//@ encodes: Tags::from_json, read_tags_array, count_tags, burn_tag, burn_string, read_tag, json_unescape
+//@ bounds: the valid text `[ ["a","b\\n"] , [] ]` (20 bytes) cut after 0 bytes, arbitrary prior output buffer: no panic, consumed <= length, accessors total
+//@ outside: lengths that are not an instance of this family; arbitrary input bytes at this level (decided on the kernels; thorough: c03_tags_arb2 / c03_filter_arb3)
+#[kani::proof]
+#[kani::unwind(8)]
+#[kani::stub(core::panic::Location::caller, stub_caller)]
+fn c03_tags_prefix_0() {
+    tags_prefix_at(0);
+}
+
+//@ harness: c03_tags_prefix_1
+//@ tier: seeded
+//@ group: tags_prefix
+//@ timeout: 900
+//@ mem: 10
+//@ covers: none
+//@ unwindset: memcmp.0=12; burn_string=12; eat_whitespace=6; json_unescape=8; memchr=12; walk_tags=6
+//@ encodes: Tags::from_json, read_tags_array, count_tags, burn_tag, burn_string, read_tag, json_unescape
+//@ bounds: the valid text `[ ["a","b\\n"] , [] ]` (20 bytes) cut after 1 bytes, arbitrary prior output buffer: no panic, consumed <= length, accessors total
+//@ outside: lengths that are not an instance of this family; arbitrary input bytes at this level (decided on the kernels; thorough: c03_tags_arb2 / c03_filter_arb3)
+#[kani::proof]
+#[kani::unwind(8)]
+#[kani::stub(core::panic::Location::caller, stub_caller)]
+fn c03_tags_prefix_1() {
+    tags_prefix_at(1);
+}
+
+//@ harness: c03_tags_prefix_2
+//@ tier: seeded
+//@ group: tags_prefix
+//@ timeout: 900
+//@ mem: 10
+//@ covers: none
+//@ unwindset: memcmp.0=12; burn_string=12; eat_whitespace=6; json_unescape=8; memchr=12; walk_tags=6
+//@ encodes: Tags::from_json, read_tags_array, count_tags, burn_tag, burn_string, read_tag, json_unescape
+//@ bounds: the valid text `[ ["a","b\\n"] , [] ]` (20 bytes) cut after 2 bytes, arbitrary prior output buffer: no panic, consumed <= length, accessors total
+//@ outside: lengths that are not an instance of this family; arbitrary input bytes at this level (decided on the kernels; thorough: c03_tags_arb2 / c03_filter_arb3)
+#[kani::proof]
+#[kani::unwind(8)]
+#[kani::stub(core::panic::Location::caller, stub_caller)]
+fn c03_tags_prefix_2() {
+    tags_prefix_at(2);
+}
+
+//@ harness: c03_tags_prefix_3
+//@ tier: quick
+//@ timeout: 900
+//@ mem: 10
+//@ covers: none
+//@ unwindset: memcmp.0=12; burn_string=12; eat_whitespace=6; json_unescape=8; memchr=12; walk_tags=6
+//@ encodes: Tags::from_json, read_tags_array, count_tags, burn_tag, burn_string, read_tag, json_unescape
+//@ bounds: the valid text `[ ["a","b\\n"] , [] ]` (20 bytes) cut after 3 bytes, arbitrary prior output buffer: no panic, consumed <= length, accessors total
+//@ outside: lengths that are not an instance of this family; arbitrary input bytes at this level (decided on the kernels; thorough: c03_tags_arb2 / c03_filter_arb3)
+#[kani::proof]
+#[kani::unwind(8)]
+#[kani::stub(core::panic::Location::caller, stub_caller)]
+fn c03_tags_prefix_3() {
+    tags_prefix_at(3);
+}
+
+//@ harness: c03_tags_prefix_4
+//@ tier: seeded
+//@ group: tags_prefix
+//@ timeout: 900
+//@ mem: 10
+//@ covers: none
+//@ unwindset: memcmp.0=12; burn_string=12; eat_whitespace=6; json_unescape=8; memchr=12; walk_tags=6
+//@ encodes: Tags::from_json, read_tags_array, count_tags, burn_tag, burn_string, read_tag, json_unescape
+//@ bounds: the valid text `[ ["a","b\\n"] , [] ]` (20 bytes) cut after 4 bytes, arbitrary prior output buffer: no panic, consumed <= length, accessors total
+//@ outside: lengths that are not an instance of this family; arbitrary input bytes at this level (decided on the kernels; thorough: c03_tags_arb2 / c03_filter_arb3)
+#[kani::proof]
+#[kani::unwind(8)]
+#[kani::stub(core::panic::Location::caller, stub_caller)]
+fn c03_tags_prefix_4() {
+    tags_prefix_at(4);
+}
+
+//@ harness: c03_tags_prefix_5
+//@ tier: seeded
+//@ group: tags_prefix
+//@ timeout: 900
+//@ mem: 10
+//@ covers: none
+//@ unwindset: memcmp.0=12; burn_string=12; eat_whitespace=6; json_unescape=8; memchr=12; walk_tags=6
+//@ encodes: Tags::from_json, read_tags_array, count_tags, burn_tag, burn_string, read_tag, json_unescape
+//@ bounds: the valid text `[ ["a","b\\n"] , [] ]` (20 bytes) cut after 5 bytes, arbitrary prior output buffer: no panic, consumed <= length, accessors total
+//@ outside: lengths that are not an instance of this family; arbitrary input bytes at this level (decided on the kernels; thorough: c03_tags_arb2 / c03_filter_arb3)
+#[kani::proof]
+#[kani::unwind(8)]
+#[kani::stub(core::panic::Location::caller, stub_caller)]
+fn c03_tags_prefix_5() {
+    tags_prefix_at(5);
+}
+
+//@ harness: c03_tags_prefix_6
+//@ tier: seeded
+//@ group: tags_prefix
+//@ timeout: 900
+//@ mem: 10
+//@ covers: none
+//@ unwindset: memcmp.0=12; burn_string=12; eat_whitespace=6; json_unescape=8; memchr=12; walk_tags=6
+//@ encodes: Tags::from_json, read_tags_array, count_tags, burn_tag, burn_string, read_tag, json_unescape
+//@ bounds: the valid text `[ ["a","b\\n"] , [] ]` (20 bytes) cut after 6 bytes, arbitrary prior output buffer: no panic, consumed <= length, accessors total
+//@ outside: lengths that are not an instance of this family; arbitrary input bytes at this level (decided on the kernels; thorough: c03_tags_arb2 / c03_filter_arb3)
+#[kani::proof]
+#[kani::unwind(8)]
+#[kani::stub(core::panic::Location::caller, stub_caller)]
+fn c03_tags_prefix_6() {
+    tags_prefix_at(6);
+}
+
+//@ harness: c03_tags_prefix_7
+//@ tier: seeded
+//@ group: tags_prefix
+//@ timeout: 900
+//@ mem: 10
+//@ covers: none
+//@ unwindset: memcmp.0=12; burn_string=12; eat_whitespace=6; json_unescape=8; memchr=12; walk_tags=6
+//@ encodes: Tags::from_json, read_tags_array, count_tags, burn_tag, burn_string, read_tag, json_unescape
+//@ bounds: the valid text `[ ["a","b\\n"] , [] ]` (20 bytes) cut after 7 bytes, arbitrary prior output buffer: no panic, consumed <= length, accessors total
+//@ outside: lengths that are not an instance of this family; arbitrary input bytes at this level (decided on the kernels; thorough: c03_tags_arb2 / c03_filter_arb3)
+#[kani::proof]
+#[kani::unwind(8)]
+#[kani::stub(core::panic::Location::caller, stub_caller)]
+fn c03_tags_prefix_7() {
+    tags_prefix_at(7);
+}
+
+//@ harness: c03_tags_prefix_8
+//@ tier: seeded
+//@ group: tags_prefix
+//@ timeout: 900
+//@ mem: 10
+//@ covers: none
+//@ unwindset: memcmp.0=12; burn_string=12; eat_whitespace=6; json_unescape=8; memchr=12; walk_tags=6
+//@ encodes: Tags::from_json, read_tags_array, count_tags, burn_tag, burn_string, read_tag, json_unescape
+//@ bounds: the valid text `[ ["a","b\\n"] , [] ]` (20 bytes) cut after 8 bytes, arbitrary prior output buffer: no panic, consumed <= length, accessors total
+//@ outside: lengths that are not an instance of this family; arbitrary input bytes at this level (decided on the kernels; thorough: c03_tags_arb2 / c03_filter_arb3)
+#[kani::proof]
+#[kani::unwind(8)]
+#[kani::stub(core::panic::Location::caller, stub_caller)]
+fn c03_tags_prefix_8() {
+    tags_prefix_at(8);
+}
+
+//@ harness: c03_tags_prefix_9
+//@ tier: thorough
+//@ timeout: 2400
+//@ mem: 10
+//@ covers: none
+//@ unwindset: memcmp.0=12; burn_string=12; eat_whitespace=6; json_unescape=8; memchr=12; walk_tags=6
+//@ encodes: Tags::from_json, read_tags_array, count_tags, burn_tag, burn_string, read_tag, json_unescape
+//@ bounds: the valid text `[ ["a","b\\n"] , [] ]` (20 bytes) cut after 9 bytes, arbitrary prior output buffer: no panic, consumed <= length, accessors total
+//@ outside: lengths that are not an instance of this family; arbitrary input bytes at this level (decided on the kernels; thorough: c03_tags_arb2 / c03_filter_arb3)
+#[kani::proof]
+#[kani::unwind(8)]
+#[kani::stub(core::panic::Location::caller, stub_caller)]
+fn c03_tags_prefix_9() {
+    tags_prefix_at(9);
+}
+
+//@ harness: c03_tags_prefix_10
+//@ tier: seeded
+//@ group: tags_prefix
+//@ timeout: 900
+//@ mem: 10
+//@ covers: none
+//@ unwindset: memcmp.0=12; burn_string=12; eat_whitespace=6; json_unescape=8; memchr=12; walk_tags=6
+//@ encodes: Tags::from_json, read_tags_array, count_tags, burn_tag, burn_string, read_tag, json_unescape
+//@ bounds: the valid text `[ ["a","b\\n"] , [] ]` (20 bytes) cut after 10 bytes, arbitrary prior output buffer: no panic, consumed <= length, accessors total
+//@ outside: lengths that are not an instance of this family; arbitrary input bytes at this level (decided on the kernels; thorough: c03_tags_arb2 / c03_filter_arb3)
+#[kani::proof]
+#[kani::unwind(8)]
+#[kani::stub(core::panic::Location::caller, stub_caller)]
+fn c03_tags_prefix_10() {
+    tags_prefix_at(10);
+}
+
+//@ harness: c03_tags_prefix_11
+//@ tier: seeded
+//@ group: tags_prefix
+//@ timeout: 900
+//@ mem: 10
+//@ covers: none
+//@ unwindset: memcmp.0=12; burn_string=12; eat_whitespace=6; json_unescape=8; memchr=12; walk_tags=6
+//@ encodes: Tags::from_json, read_tags_array, count_tags, burn_tag, burn_string, read_tag, json_unescape
+//@ bounds: the valid text `[ ["a","b\\n"] , [] ]` (20 bytes) cut after 11 bytes, arbitrary prior output buffer: no panic, consumed <= length, accessors total
+//@ outside: lengths that are not an instance of this family; arbitrary input bytes at this level (decided on the kernels; thorough: c03_tags_arb2 / c03_filter_arb3)
+#[kani::proof]
+#[kani::unwind(8)]
+#[kani::stub(core::panic::Location::caller, stub_caller)]
+fn c03_tags_prefix_11() {
+    tags_prefix_at(11);
+}
+
+//@ harness: c03_tags_prefix_12
+//@ tier: seeded
+//@ group: tags_prefix
+//@ timeout: 900
+//@ mem: 10
+//@ covers: none
+//@ unwindset: memcmp.0=12; burn_string=12; eat_whitespace=6; json_unescape=8; memchr=12; walk_tags=6
+//@ encodes: Tags::from_json, read_tags_array, count_tags, burn_tag, burn_string, read_tag, json_unescape
+//@ bounds: the valid text `[ ["a","b\\n"] , [] ]` (20 bytes) cut after 12 bytes, arbitrary prior output buffer: no panic, consumed <= length, accessors total
+//@ outside: lengths that are not an instance of this family; arbitrary input bytes at this level (decided on the kernels; thorough: c03_tags_arb2 / c03_filter_arb3)
+#[kani::proof]
+#[kani::unwind(8)]
+#[kani::stub(core::panic::Location::caller, stub_caller)]
+fn c03_tags_prefix_12() {
+    tags_prefix_at(12);
+}
+
+//@ harness: c03_tags_prefix_13
+//@ tier: seeded
+//@ group: tags_prefix
+//@ timeout: 900
+//@ mem: 10
+//@ covers: none
+//@ unwindset: memcmp.0=12; burn_string=12; eat_whitespace=6; json_unescape=8; memchr=12; walk_tags=6
+//@ encodes: Tags::from_json, read_tags_array, count_tags, burn_tag, burn_string, read_tag, json_unescape
+//@ bounds: the valid text `[ ["a","b\\n"] , [] ]` (20 bytes) cut after 13 bytes, arbitrary prior output buffer: no panic, consumed <= length, accessors total
+//@ outside: lengths that are not an instance of this family; arbitrary input bytes at this level (decided on the kernels; thorough: c03_tags_arb2 / c03_filter_arb3)
+#[kani::proof]
+#[kani::unwind(8)]
+#[kani::stub(core::panic::Location::caller, stub_caller)]
+fn c03_tags_prefix_13() {
+    tags_prefix_at(13);
+}
+
+//@ harness: c03_tags_prefix_14
+//@ tier: thorough
+//@ timeout: 2400
+//@ mem: 10
+//@ covers: none
+//@ unwindset: memcmp.0=12; burn_string=12; eat_whitespace=6; json_unescape=8; memchr=12; walk_tags=6
+//@ encodes: Tags::from_json, read_tags_array, count_tags, burn_tag, burn_string, read_tag, json_unescape
+//@ bounds: the valid text `[ ["a","b\\n"] , [] ]` (20 bytes) cut after 14 bytes, arbitrary prior output buffer: no panic, consumed <= length, accessors total
+//@ outside: lengths that are not an instance of this family; arbitrary input bytes at this level (decided on the kernels; thorough: c03_tags_arb2 / c03_filter_arb3)
+#[kani::proof]
+#[kani::unwind(8)]
+#[kani::stub(core::panic::Location::caller, stub_caller)]
+fn c03_tags_prefix_14() {
+    tags_prefix_at(14);
+}
+
+//@ harness: c03_tags_prefix_15
+//@ tier: seeded
+//@ group: tags_prefix
+//@ timeout: 900
+//@ mem: 10
+//@ covers: none
+//@ unwindset: memcmp.0=12; burn_string=12; eat_whitespace=6; json_unescape=8; memchr=12; walk_tags=6
+//@ encodes: Tags::from_json, read_tags_array, count_tags, burn_tag, burn_string, read_tag, json_unescape
+//@ bounds: the valid text `[ ["a","b\\n"] , [] ]` (20 bytes) cut after 15 bytes, arbitrary prior output buffer: no panic, consumed <= length, accessors total
+//@ outside: lengths that are not an instance of this family; arbitrary input bytes at this level (decided on the kernels; thorough: c03_tags_arb2 / c03_filter_arb3)
+#[kani::proof]
+#[kani::unwind(8)]
+#[kani::stub(core::panic::Location::caller, stub_caller)]
+fn c03_tags_prefix_15() {
+    tags_prefix_at(15);
+}
+
+//@ harness: c03_tags_prefix_16
+//@ tier: seeded
+//@ group: tags_prefix
+//@ timeout: 900
+//@ mem: 10
+//@ covers: none
+//@ unwindset: memcmp.0=12; burn_string=12; eat_whitespace=6; json_unescape=8; memchr=12; walk_tags=6
+//@ encodes: Tags::from_json, read_tags_array, count_tags, burn_tag, burn_string, read_tag, json_unescape
+//@ bounds: the valid text `[ ["a","b\\n"] , [] ]` (20 bytes) cut after 16 bytes, arbitrary prior output buffer: no panic, consumed <= length, accessors total
+//@ outside: lengths that are not an instance of this family; arbitrary input bytes at this level (decided on the kernels; thorough: c03_tags_arb2 / c03_filter_arb3)
+#[kani::proof]
+#[kani::unwind(8)]
+#[kani::stub(core::panic::Location::caller, stub_caller)]
+fn c03_tags_prefix_16() {
+    tags_prefix_at(16);
+}
+
+//@ harness: c03_tags_prefix_17
+//@ tier: seeded
+//@ group: tags_prefix
+//@ timeout: 900
+//@ mem: 10
+//@ covers: none
+//@ unwindset: memcmp.0=12; burn_string=12; eat_whitespace=6; json_unescape=8; memchr=12; walk_tags=6
+//@ encodes: Tags::from_json, read_tags_array, count_tags, burn_tag, burn_string, read_tag, json_unescape
+//@ bounds: the valid text `[ ["a","b\\n"] , [] ]` (20 bytes) cut after 17 bytes, arbitrary prior output buffer: no panic, consumed <= length, accessors total
+//@ outside: lengths that are not an instance of this family; arbitrary input bytes at this level (decided on the kernels; thorough: c03_tags_arb2 / c03_filter_arb3)
+#[kani::proof]
+#[kani::unwind(8)]
+#[kani::stub(core::panic::Location::caller, stub_caller)]
+fn c03_tags_prefix_17() {
+    tags_prefix_at(17);
+}
+
+//@ harness: c03_tags_prefix_18
+//@ tier: thorough
+//@ group: tags_prefix
+//@ timeout: 2400
+//@ mem: 10
+//@ covers: none
+//@ unwindset: memcmp.0=12; burn_string=12; eat_whitespace=6; json_unescape=8; memchr=12; walk_tags=6
+//@ encodes: Tags::from_json, read_tags_array, count_tags, burn_tag, burn_string, read_tag, json_unescape
+//@ bounds: the valid text `[ ["a","b\\n"] , [] ]` (20 bytes) cut after 18 bytes, arbitrary prior output buffer: no panic, consumed <= length, accessors total
+//@ outside: lengths that are not an instance of this family; arbitrary input bytes at this level (decided on the kernels; thorough: c03_tags_arb2 / c03_filter_arb3)
+#[kani::proof]
+#[kani::unwind(8)]
+#[kani::stub(core::panic::Location::caller, stub_caller)]
+fn c03_tags_prefix_18() {
+    tags_prefix_at(18);
+}
+
+//@ harness: c03_tags_prefix_19
+//@ tier: seeded
+//@ group: tags_prefix
+//@ timeout: 900
+//@ mem: 10
+//@ covers: none
+//@ unwindset: memcmp.0=12; burn_string=12; eat_whitespace=6; json_unescape=8; memchr=12; walk_tags=6
+//@ encodes: Tags::from_json, read_tags_array, count_tags, burn_tag, burn_string, read_tag, json_unescape
+//@ bounds: the valid text `[ ["a","b\\n"] , [] ]` (20 bytes) cut after 19 bytes, arbitrary prior output buffer: no panic, consumed <= length, accessors total
+//@ outside: lengths that are not an instance of this family; arbitrary input bytes at this level (decided on the kernels; thorough: c03_tags_arb2 / c03_filter_arb3)
+#[kani::proof]
+#[kani::unwind(8)]
+#[kani::stub(core::panic::Location::caller, stub_caller)]
+fn c03_tags_prefix_19() {
+    tags_prefix_at(19);
+}
+
+//@ harness: c03_tags_prefix_20
+//@ tier: quick
+//@ timeout: 900
+//@ mem: 10
+//@ covers: none
+//@ unwindset: memcmp.0=12; burn_string=12; eat_whitespace=6; json_unescape=8; memchr=12; walk_tags=6
+//@ encodes: Tags::from_json, read_tags_array, count_tags, burn_tag, burn_string, read_tag, json_unescape
+//@ bounds: the valid text `[ ["a","b\\n"] , [] ]` (20 bytes) cut after 20 bytes, arbitrary prior output buffer: no panic, consumed <= length, accessors total
+//@ outside: lengths that are not an instance of this family; arbitrary input bytes at this level (decided on the kernels; thorough: c03_tags_arb2 / c03_filter_arb3)
+#[kani::proof]
+#[kani::unwind(8)]
+#[kani::stub(core::panic::Location::caller, stub_caller)]
+fn c03_tags_prefix_20() {
+    tags_prefix_at(20);
+}
+
+//@ harness: c03_tags_outlen_0
+//@ tier: seeded
+//@ group: tags_outlen
+//@ timeout: 900
+//@ mem: 10
+//@ covers: none
+//@ unwindset: memcmp.0=12; burn_string=12; eat_whitespace=6; json_unescape=8; memchr=12; walk_tags=6
 //@ encodes: Tags::from_json, read_tags_array, read_tag, json_unescape, put
-//@ bounds: the valid text `[["e","ab"],["p"],[]]` with one arbitrary printable value byte, parsed into every output length in the range named by the harness (needs 26; all lengths 0..=34 over the three harnesses), arbitrary prior buffer contents: no panic, error below the needed size, success (with the right value) at and above it
+//@ bounds: the valid text `[["e","ab"],["p"],[]]` parsed into an output buffer of exactly 0 bytes (needs 26), arbitrary prior contents: no panic, error below the needed size, success at and above it
+//@ outside: lengths that are not an instance of this family; arbitrary input bytes at this level (decided on the kernels; thorough: c03_tags_arb2 / c03_filter_arb3)
 #[kani::proof]
 #[kani::unwind(8)]
 #[kani::stub(core::panic::Location::caller, stub_caller)]
-fn c03_tags_outlen_0_12() {
-    tags_outlens(0, 12);
+fn c03_tags_outlen_0() {
+    tags_outlen_at(0);
 }
+
+//@ harness: c03_tags_outlen_1
+//@ tier: seeded
+//@ group: tags_outlen
+//@ timeout: 900
+//@ mem: 10
+//@ covers: none
+//@ unwindset: memcmp.0=12; burn_string=12; eat_whitespace=6; json_unescape=8; memchr=12; walk_tags=6
+//@ encodes: Tags::from_json, read_tags_array, read_tag, json_unescape, put
+//@ bounds: the valid text `[["e","ab"],["p"],[]]` parsed into an output buffer of exactly 1 bytes (needs 26), arbitrary prior contents: no panic, error below the needed size, success at and above it
+//@ outside: lengths that are not an instance of this family; arbitrary input bytes at this level (decided on the kernels; thorough: c03_tags_arb2 / c03_filter_arb3)
 #[kani::proof]
 #[kani::unwind(8)]
 #[kani::stub(core::panic::Location::caller, stub_caller)]
-fn c03_tags_outlen_13_24() {
-    tags_outlens(13, 24);
+fn c03_tags_outlen_1() {
+    tags_outlen_at(1);
 }
+
+//@ harness: c03_tags_outlen_2
+//@ tier: seeded
+//@ group: tags_outlen
+//@ timeout: 900
+//@ mem: 10
+//@ covers: none
+//@ unwindset: memcmp.0=12; burn_string=12; eat_whitespace=6; json_unescape=8; memchr=12; walk_tags=6
+//@ encodes: Tags::from_json, read_tags_array, read_tag, json_unescape, put
+//@ bounds: the valid text `[["e","ab"],["p"],[]]` parsed into an output buffer of exactly 2 bytes (needs 26), arbitrary prior contents: no panic, error below the needed size, success at and above it
+//@ outside: lengths that are not an instance of this family; arbitrary input bytes at this level (decided on the kernels; thorough: c03_tags_arb2 / c03_filter_arb3)
 #[kani::proof]
 #[kani::unwind(8)]
 #[kani::stub(core::panic::Location::caller, stub_caller)]
-fn c03_tags_outlen_25_34() {
-    tags_outlens(25, 34);
+fn c03_tags_outlen_2() {
+    tags_outlen_at(2);
+}
+
+//@ harness: c03_tags_outlen_3
+//@ tier: seeded
+//@ group: tags_outlen
+//@ timeout: 900
+//@ mem: 10
+//@ covers: none
+//@ unwindset: memcmp.0=12; burn_string=12; eat_whitespace=6; json_unescape=8; memchr=12; walk_tags=6
+//@ encodes: Tags::from_json, read_tags_array, read_tag, json_unescape, put
+//@ bounds: the valid text `[["e","ab"],["p"],[]]` parsed into an output buffer of exactly 3 bytes (needs 26), arbitrary prior contents: no panic, error below the needed size, success at and above it
+//@ outside: lengths that are not an instance of this family; arbitrary input bytes at this level (decided on the kernels; thorough: c03_tags_arb2 / c03_filter_arb3)
+#[kani::proof]
+#[kani::unwind(8)]
+#[kani::stub(core::panic::Location::caller, stub_caller)]
+fn c03_tags_outlen_3() {
+    tags_outlen_at(3);
+}
+
+//@ harness: c03_tags_outlen_4
+//@ tier: seeded
+//@ group: tags_outlen
+//@ timeout: 900
+//@ mem: 10
+//@ covers: none
+//@ unwindset: memcmp.0=12; burn_string=12; eat_whitespace=6; json_unescape=8; memchr=12; walk_tags=6
+//@ encodes: Tags::from_json, read_tags_array, read_tag, json_unescape, put
+//@ bounds: the valid text `[["e","ab"],["p"],[]]` parsed into an output buffer of exactly 4 bytes (needs 26), arbitrary prior contents: no panic, error below the needed size, success at and above it
+//@ outside: lengths that are not an instance of this family; arbitrary input bytes at this level (decided on the kernels; thorough: c03_tags_arb2 / c03_filter_arb3)
+#[kani::proof]
+#[kani::unwind(8)]
+#[kani::stub(core::panic::Location::caller, stub_caller)]
+fn c03_tags_outlen_4() {
+    tags_outlen_at(4);
+}
+
+//@ harness: c03_tags_outlen_5
+//@ tier: seeded
+//@ group: tags_outlen
+//@ timeout: 900
+//@ mem: 10
+//@ covers: none
+//@ unwindset: memcmp.0=12; burn_string=12; eat_whitespace=6; json_unescape=8; memchr=12; walk_tags=6
+//@ encodes: Tags::from_json, read_tags_array, read_tag, json_unescape, put
+//@ bounds: the valid text `[["e","ab"],["p"],[]]` parsed into an output buffer of exactly 5 bytes (needs 26), arbitrary prior contents: no panic, error below the needed size, success at and above it
+//@ outside: lengths that are not an instance of this family; arbitrary input bytes at this level (decided on the kernels; thorough: c03_tags_arb2 / c03_filter_arb3)
+#[kani::proof]
+#[kani::unwind(8)]
+#[kani::stub(core::panic::Location::caller, stub_caller)]
+fn c03_tags_outlen_5() {
+    tags_outlen_at(5);
+}
+
+//@ harness: c03_tags_outlen_6
+//@ tier: quick
+//@ timeout: 900
+//@ mem: 10
+//@ covers: none
+//@ unwindset: memcmp.0=12; burn_string=12; eat_whitespace=6; json_unescape=8; memchr=12; walk_tags=6
+//@ encodes: Tags::from_json, read_tags_array, read_tag, json_unescape, put
+//@ bounds: the valid text `[["e","ab"],["p"],[]]` parsed into an output buffer of exactly 6 bytes (needs 26), arbitrary prior contents: no panic, error below the needed size, success at and above it
+//@ outside: lengths that are not an instance of this family; arbitrary input bytes at this level (decided on the kernels; thorough: c03_tags_arb2 / c03_filter_arb3)
+#[kani::proof]
+#[kani::unwind(8)]
+#[kani::stub(core::panic::Location::caller, stub_caller)]
+fn c03_tags_outlen_6() {
+    tags_outlen_at(6);
+}
+
+//@ harness: c03_tags_outlen_7
+//@ tier: seeded
+//@ group: tags_outlen
+//@ timeout: 900
+//@ mem: 10
+//@ covers: none
+//@ unwindset: memcmp.0=12; burn_string=12; eat_whitespace=6; json_unescape=8; memchr=12; walk_tags=6
+//@ encodes: Tags::from_json, read_tags_array, read_tag, json_unescape, put
+//@ bounds: the valid text `[["e","ab"],["p"],[]]` parsed into an output buffer of exactly 7 bytes (needs 26), arbitrary prior contents: no panic, error below the needed size, success at and above it
+//@ outside: lengths that are not an instance of this family; arbitrary input bytes at this level (decided on the kernels; thorough: c03_tags_arb2 / c03_filter_arb3)
+#[kani::proof]
+#[kani::unwind(8)]
+#[kani::stub(core::panic::Location::caller, stub_caller)]
+fn c03_tags_outlen_7() {
+    tags_outlen_at(7);
+}
+
+//@ harness: c03_tags_outlen_8
+//@ tier: seeded
+//@ group: tags_outlen
+//@ timeout: 900
+//@ mem: 10
+//@ covers: none
+//@ unwindset: memcmp.0=12; burn_string=12; eat_whitespace=6; json_unescape=8; memchr=12; walk_tags=6
+//@ encodes: Tags::from_json, read_tags_array, read_tag, json_unescape, put
+//@ bounds: the valid text `[["e","ab"],["p"],[]]` parsed into an output buffer of exactly 8 bytes (needs 26), arbitrary prior contents: no panic, error below the needed size, success at and above it
+//@ outside: lengths that are not an instance of this family; arbitrary input bytes at this level (decided on the kernels; thorough: c03_tags_arb2 / c03_filter_arb3)
+#[kani::proof]
+#[kani::unwind(8)]
+#[kani::stub(core::panic::Location::caller, stub_caller)]
+fn c03_tags_outlen_8() {
+    tags_outlen_at(8);
+}
+
+//@ harness: c03_tags_outlen_9
+//@ tier: seeded
+//@ group: tags_outlen
+//@ timeout: 900
+//@ mem: 10
+//@ covers: none
+//@ unwindset: memcmp.0=12; burn_string=12; eat_whitespace=6; json_unescape=8; memchr=12; walk_tags=6
+//@ encodes: Tags::from_json, read_tags_array, read_tag, json_unescape, put
+//@ bounds: the valid text `[["e","ab"],["p"],[]]` parsed into an output buffer of exactly 9 bytes (needs 26), arbitrary prior contents: no panic, error below the needed size, success at and above it
+//@ outside: lengths that are not an instance of this family; arbitrary input bytes at this level (decided on the kernels; thorough: c03_tags_arb2 / c03_filter_arb3)
+#[kani::proof]
+#[kani::unwind(8)]
+#[kani::stub(core::panic::Location::caller, stub_caller)]
+fn c03_tags_outlen_9() {
+    tags_outlen_at(9);
+}
+
+//@ harness: c03_tags_outlen_10
+//@ tier: seeded
+//@ group: tags_outlen
+//@ timeout: 900
+//@ mem: 10
+//@ covers: none
+//@ unwindset: memcmp.0=12; burn_string=12; eat_whitespace=6; json_unescape=8; memchr=12; walk_tags=6
+//@ encodes: Tags::from_json, read_tags_array, read_tag, json_unescape, put
+//@ bounds: the valid text `[["e","ab"],["p"],[]]` parsed into an output buffer of exactly 10 bytes (needs 26), arbitrary prior contents: no panic, error below the needed size, success at and above it
+//@ outside: lengths that are not an instance of this family; arbitrary input bytes at this level (decided on the kernels; thorough: c03_tags_arb2 / c03_filter_arb3)
+#[kani::proof]
+#[kani::unwind(8)]
+#[kani::stub(core::panic::Location::caller, stub_caller)]
+fn c03_tags_outlen_10() {
+    tags_outlen_at(10);
+}
+
+//@ harness: c03_tags_outlen_11
+//@ tier: seeded
+//@ group: tags_outlen
+//@ timeout: 900
+//@ mem: 10
+//@ covers: none
+//@ unwindset: memcmp.0=12; burn_string=12; eat_whitespace=6; json_unescape=8; memchr=12; walk_tags=6
+//@ encodes: Tags::from_json, read_tags_array, read_tag, json_unescape, put
+//@ bounds: the valid text `[["e","ab"],["p"],[]]` parsed into an output buffer of exactly 11 bytes (needs 26), arbitrary prior contents: no panic, error below the needed size, success at and above it
+//@ outside: lengths that are not an instance of this family; arbitrary input bytes at this level (decided on the kernels; thorough: c03_tags_arb2 / c03_filter_arb3)
+#[kani::proof]
+#[kani::unwind(8)]
+#[kani::stub(core::panic::Location::caller, stub_caller)]
+fn c03_tags_outlen_11() {
+    tags_outlen_at(11);
+}
+
+//@ harness: c03_tags_outlen_20
+//@ tier: seeded
+//@ group: tags_outlen
+//@ timeout: 900
+//@ mem: 10
+//@ covers: none
+//@ unwindset: memcmp.0=12; burn_string=12; eat_whitespace=6; json_unescape=8; memchr=12; walk_tags=6
+//@ encodes: Tags::from_json, read_tags_array, read_tag, json_unescape, put
+//@ bounds: the valid text `[["e","ab"],["p"],[]]` parsed into an output buffer of exactly 20 bytes (needs 26), arbitrary prior contents: no panic, error below the needed size, success at and above it
+//@ outside: lengths that are not an instance of this family; arbitrary input bytes at this level (decided on the kernels; thorough: c03_tags_arb2 / c03_filter_arb3)
+#[kani::proof]
+#[kani::unwind(8)]
+#[kani::stub(core::panic::Location::caller, stub_caller)]
+fn c03_tags_outlen_20() {
+    tags_outlen_at(20);
+}
+
+//@ harness: c03_tags_outlen_21
+//@ tier: seeded
+//@ group: tags_outlen
+//@ timeout: 900
+//@ mem: 10
+//@ covers: none
+//@ unwindset: memcmp.0=12; burn_string=12; eat_whitespace=6; json_unescape=8; memchr=12; walk_tags=6
+//@ encodes: Tags::from_json, read_tags_array, read_tag, json_unescape, put
+//@ bounds: the valid text `[["e","ab"],["p"],[]]` parsed into an output buffer of exactly 21 bytes (needs 26), arbitrary prior contents: no panic, error below the needed size, success at and above it
+//@ outside: lengths that are not an instance of this family; arbitrary input bytes at this level (decided on the kernels; thorough: c03_tags_arb2 / c03_filter_arb3)
+#[kani::proof]
+#[kani::unwind(8)]
+#[kani::stub(core::panic::Location::caller, stub_caller)]
+fn c03_tags_outlen_21() {
+    tags_outlen_at(21);
+}
+
+//@ harness: c03_tags_outlen_22
+//@ tier: seeded
+//@ group: tags_outlen
+//@ timeout: 900
+//@ mem: 10
+//@ covers: none
+//@ unwindset: memcmp.0=12; burn_string=12; eat_whitespace=6; json_unescape=8; memchr=12; walk_tags=6
+//@ encodes: Tags::from_json, read_tags_array, read_tag, json_unescape, put
+//@ bounds: the valid text `[["e","ab"],["p"],[]]` parsed into an output buffer of exactly 22 bytes (needs 26), arbitrary prior contents: no panic, error below the needed size, success at and above it
+//@ outside: lengths that are not an instance of this family; arbitrary input bytes at this level (decided on the kernels; thorough: c03_tags_arb2 / c03_filter_arb3)
+#[kani::proof]
+#[kani::unwind(8)]
+#[kani::stub(core::panic::Location::caller, stub_caller)]
+fn c03_tags_outlen_22() {
+    tags_outlen_at(22);
+}
+
+//@ harness: c03_tags_outlen_23
+//@ tier: seeded
+//@ group: tags_outlen
+//@ timeout: 900
+//@ mem: 10
+//@ covers: none
+//@ unwindset: memcmp.0=12; burn_string=12; eat_whitespace=6; json_unescape=8; memchr=12; walk_tags=6
+//@ encodes: Tags::from_json, read_tags_array, read_tag, json_unescape, put
+//@ bounds: the valid text `[["e","ab"],["p"],[]]` parsed into an output buffer of exactly 23 bytes (needs 26), arbitrary prior contents: no panic, error below the needed size, success at and above it
+//@ outside: lengths that are not an instance of this family; arbitrary input bytes at this level (decided on the kernels; thorough: c03_tags_arb2 / c03_filter_arb3)
+#[kani::proof]
+#[kani::unwind(8)]
+#[kani::stub(core::panic::Location::caller, stub_caller)]
+fn c03_tags_outlen_23() {
+    tags_outlen_at(23);
+}
+
+//@ harness: c03_tags_outlen_24
+//@ tier: seeded
+//@ group: tags_outlen
+//@ timeout: 900
+//@ mem: 10
+//@ covers: none
+//@ unwindset: memcmp.0=12; burn_string=12; eat_whitespace=6; json_unescape=8; memchr=12; walk_tags=6
+//@ encodes: Tags::from_json, read_tags_array, read_tag, json_unescape, put
+//@ bounds: the valid text `[["e","ab"],["p"],[]]` parsed into an output buffer of exactly 24 bytes (needs 26), arbitrary prior contents: no panic, error below the needed size, success at and above it
+//@ outside: lengths that are not an instance of this family; arbitrary input bytes at this level (decided on the kernels; thorough: c03_tags_arb2 / c03_filter_arb3)
+#[kani::proof]
+#[kani::unwind(8)]
+#[kani::stub(core::panic::Location::caller, stub_caller)]
+fn c03_tags_outlen_24() {
+    tags_outlen_at(24);
+}
+
+//@ harness: c03_tags_outlen_25
+//@ tier: quick
+//@ timeout: 900
+//@ mem: 10
+//@ covers: none
+//@ unwindset: memcmp.0=12; burn_string=12; eat_whitespace=6; json_unescape=8; memchr=12; walk_tags=6
+//@ encodes: Tags::from_json, read_tags_array, read_tag, json_unescape, put
+//@ bounds: the valid text `[["e","ab"],["p"],[]]` parsed into an output buffer of exactly 25 bytes (needs 26), arbitrary prior contents: no panic, error below the needed size, success at and above it
+//@ outside: lengths that are not an instance of this family; arbitrary input bytes at this level (decided on the kernels; thorough: c03_tags_arb2 / c03_filter_arb3)
+#[kani::proof]
+#[kani::unwind(8)]
+#[kani::stub(core::panic::Location::caller, stub_caller)]
+fn c03_tags_outlen_25() {
+    tags_outlen_at(25);
+}
+
+//@ harness: c03_tags_outlen_26
+//@ tier: quick
+//@ timeout: 900
+//@ mem: 10
+//@ covers: none
+//@ unwindset: memcmp.0=12; burn_string=12; eat_whitespace=6; json_unescape=8; memchr=12; walk_tags=6
+//@ encodes: Tags::from_json, read_tags_array, read_tag, json_unescape, put
+//@ bounds: the valid text `[["e","ab"],["p"],[]]` parsed into an output buffer of exactly 26 bytes (needs 26), arbitrary prior contents: no panic, error below the needed size, success at and above it
+//@ outside: lengths that are not an instance of this family; arbitrary input bytes at this level (decided on the kernels; thorough: c03_tags_arb2 / c03_filter_arb3)
+#[kani::proof]
+#[kani::unwind(8)]
+#[kani::stub(core::panic::Location::caller, stub_caller)]
+fn c03_tags_outlen_26() {
+    tags_outlen_at(26);
+}
+
+//@ harness: c03_tags_outlen_27
+//@ tier: seeded
+//@ group: tags_outlen
+//@ timeout: 900
+//@ mem: 10
+//@ covers: none
+//@ unwindset: memcmp.0=12; burn_string=12; eat_whitespace=6; json_unescape=8; memchr=12; walk_tags=6
+//@ encodes: Tags::from_json, read_tags_array, read_tag, json_unescape, put
+//@ bounds: the valid text `[["e","ab"],["p"],[]]` parsed into an output buffer of exactly 27 bytes (needs 26), arbitrary prior contents: no panic, error below the needed size, success at and above it
+//@ outside: lengths that are not an instance of this family; arbitrary input bytes at this level (decided on the kernels; thorough: c03_tags_arb2 / c03_filter_arb3)
+#[kani::proof]
+#[kani::unwind(8)]
+#[kani::stub(core::panic::Location::caller, stub_caller)]
+fn c03_tags_outlen_27() {
+    tags_outlen_at(27);
+}
+
+//@ harness: c03_tags_outlen_28
+//@ tier: seeded
+//@ group: tags_outlen
+//@ timeout: 900
+//@ mem: 10
+//@ covers: none
+//@ unwindset: memcmp.0=12; burn_string=12; eat_whitespace=6; json_unescape=8; memchr=12; walk_tags=6
+//@ encodes: Tags::from_json, read_tags_array, read_tag, json_unescape, put
+//@ bounds: the valid text `[["e","ab"],["p"],[]]` parsed into an output buffer of exactly 28 bytes (needs 26), arbitrary prior contents: no panic, error below the needed size, success at and above it
+//@ outside: lengths that are not an instance of this family; arbitrary input bytes at this level (decided on the kernels; thorough: c03_tags_arb2 / c03_filter_arb3)
+#[kani::proof]
+#[kani::unwind(8)]
+#[kani::stub(core::panic::Location::caller, stub_caller)]
+fn c03_tags_outlen_28() {
+    tags_outlen_at(28);
+}
+
+//@ harness: c03_tags_outlen_29
+//@ tier: seeded
+//@ group: tags_outlen
+//@ timeout: 900
+//@ mem: 10
+//@ covers: none
+//@ unwindset: memcmp.0=12; burn_string=12; eat_whitespace=6; json_unescape=8; memchr=12; walk_tags=6
+//@ encodes: Tags::from_json, read_tags_array, read_tag, json_unescape, put
+//@ bounds: the valid text `[["e","ab"],["p"],[]]` parsed into an output buffer of exactly 29 bytes (needs 26), arbitrary prior contents: no panic, error below the needed size, success at and above it
+//@ outside: lengths that are not an instance of this family; arbitrary input bytes at this level (decided on the kernels; thorough: c03_tags_arb2 / c03_filter_arb3)
+#[kani::proof]
+#[kani::unwind(8)]
+#[kani::stub(core::panic::Location::caller, stub_caller)]
+fn c03_tags_outlen_29() {
+    tags_outlen_at(29);
 }
 
 // ------------------------------------------------------------- filter ------
@@ -375,119 +1020,979 @@ fn c03_filter_arb3() {
     filter_arb::<3>();
 }
 
-fn filter_prefix_lastbyte(text: &[u8], lo: usize, hi: usize) {
-    let mut n = lo;
-    while n <= hi {
-        let mut buf = [0u8; 40];
-        let mut i = 0;
-        while i < n {
-            buf[i] = text[i];
-            i += 1;
+/// the valid filter text cut after n bytes (pure truncation), arbitrary prior output buffer
+fn filter_prefix_at(n: usize) {
+    let mut out: [u8; 64] = kani::any();
+    match Filter::from_json(&FILTER_F2[..n], &mut out) {
+        Ok((consumed, _written, f)) => {
+            assert!(consumed <= n);
+            walk_filter(f);
         }
-        let mut out: [u8; 64] = kani::any();
-        let r = Filter::from_json(&buf[..n], &mut out);
-        match r {
-            Ok((consumed, _written, f)) => {
-                assert!(consumed <= n);
-                walk_filter(f);
-            }
-            Err(e) => core::mem::forget(e),
-        }
-        n += 1;
+        Err(e) => core::mem::forget(e),
     }
 }
 
-//@ harness: c03_filter_prefix_lastbyte_0_9 c03_filter_prefix_lastbyte_10_18 c03_filter_prefix_lastbyte_19_27 c03_filter_prefix_lastbyte_28_35
-//@ tier: quick
-//@ timeout: 1500
-//@ mem: 12
-//@ covers: none
-//@ unwindset: tags_prefix_lastbyte=24; tags_outlens=40; filter_prefix_lastbyte=40; filter_outlens=60; memcmp.0=12; burn_string=12; eat_whitespace=6; read_u64=6; json_unescape=8
-//@ encodes: Filter::from_json, parse_json_filter, burn_array, burn_key_and_value, json_unescape, read_u64
-//@ bounds: the valid text `{"kinds":[1],"#e":["ab"],"limit":3}` (35 bytes) cut at every length in the range named by the harness (all 36 prefixes over the four harnesses), arbitrary prior output buffer: no panic, consumed <= length
-#[kani::proof]
-#[kani::unwind(8)]
-#[kani::stub(core::panic::Location::caller, stub_caller)]
-fn c03_filter_prefix_lastbyte_0_9() {
-    filter_prefix_lastbyte(FILTER_F2, 0, 9);
-}
-#[kani::proof]
-#[kani::unwind(8)]
-#[kani::stub(core::panic::Location::caller, stub_caller)]
-fn c03_filter_prefix_lastbyte_10_18() {
-    filter_prefix_lastbyte(FILTER_F2, 10, 18);
-}
-#[kani::proof]
-#[kani::unwind(8)]
-#[kani::stub(core::panic::Location::caller, stub_caller)]
-fn c03_filter_prefix_lastbyte_19_27() {
-    filter_prefix_lastbyte(FILTER_F2, 19, 27);
-}
-#[kani::proof]
-#[kani::unwind(8)]
-#[kani::stub(core::panic::Location::caller, stub_caller)]
-fn c03_filter_prefix_lastbyte_28_35() {
-    filter_prefix_lastbyte(FILTER_F2, 28, 35);
-}
-
-fn filter_outlens(lo: usize, hi: usize) {
+/// the valid filter text parsed into an output buffer of exactly m bytes, arbitrary prior contents
+fn filter_outlen_at(m: usize) {
     let need = 32 + 2 + (4 + 2 + 2 + 3 + 4); // header, one kind, tags: header+offset, count, "e", "ab"
-    let mut m = lo;
-    while m <= hi {
-        let mut text = [0u8; 36];
-    copy_text!(text, FILTER_F2);
-        let v: u8 = kani::any();
-        kani::assume(v >= 0x20 && v < 0x7f && v != b'"' && v != b'\\');
-        text[20] = v; // the 'a' of "ab"
-        let mut out: [u8; 56] = kani::any();
-        let r = Filter::from_json(&text, &mut out[..m]);
-        match r {
-            Ok((consumed, written, f)) => {
-                assert!(m >= need);
-                assert!(consumed == FILTER_F2.len());
-                assert!(written == need);
-                walk_filter(f);
-            }
-            Err(e) => {
-                assert!(m < need);
-                core::mem::forget(e);
-            }
+    let mut out: [u8; 56] = kani::any();
+    match Filter::from_json(FILTER_F2, &mut out[..m]) {
+        Ok((consumed, written, f)) => {
+            assert!(m >= need);
+            assert!(consumed == FILTER_F2.len());
+            assert!(written == need);
+            walk_filter(f);
         }
-        m += 1;
+        Err(e) => {
+            assert!(m < need);
+            core::mem::forget(e);
+        }
     }
 }
 
-//@ harness: c03_filter_outlen_0_20 c03_filter_outlen_21_36 c03_filter_outlen_37_46 c03_filter_outlen_47_54
-//@ tier: quick
-//@ timeout: 1500
-//@ mem: 12
+//@ harness: c03_filter_prefix_0
+//@ tier: seeded
+//@ group: filter_prefix
+//@ timeout: 900
+//@ mem: 10
 //@ covers: none
-//@ unwindset: tags_prefix_lastbyte=24; tags_outlens=40; filter_prefix_lastbyte=40; filter_outlens=60; memcmp.0=12; burn_string=12; eat_whitespace=6; read_u64=6; json_unescape=8
+//@ unwindset: memcmp.0=12; burn_string=12; eat_whitespace=6; json_unescape=8; memchr=12; walk_tags=6; read_u64=6; parse_json_filter=12
+//@ encodes: Filter::from_json, parse_json_filter, burn_array, json_unescape, read_u64
+//@ bounds: the valid text `{"kinds":[1],"#e":["ab"],"limit":3}` (35 bytes) cut after 0 bytes, arbitrary prior output buffer: no panic, consumed <= length
+//@ outside: lengths that are not an instance of this family; arbitrary input bytes at this level (decided on the kernels; thorough: c03_tags_arb2 / c03_filter_arb3)
+#[kani::proof]
+#[kani::unwind(8)]
+#[kani::stub(core::panic::Location::caller, stub_caller)]
+fn c03_filter_prefix_0() {
+    filter_prefix_at(0);
+}
+
+//@ harness: c03_filter_prefix_1
+//@ tier: seeded
+//@ group: filter_prefix
+//@ timeout: 900
+//@ mem: 10
+//@ covers: none
+//@ unwindset: memcmp.0=12; burn_string=12; eat_whitespace=6; json_unescape=8; memchr=12; walk_tags=6; read_u64=6; parse_json_filter=12
+//@ encodes: Filter::from_json, parse_json_filter, burn_array, json_unescape, read_u64
+//@ bounds: the valid text `{"kinds":[1],"#e":["ab"],"limit":3}` (35 bytes) cut after 1 bytes, arbitrary prior output buffer: no panic, consumed <= length
+//@ outside: lengths that are not an instance of this family; arbitrary input bytes at this level (decided on the kernels; thorough: c03_tags_arb2 / c03_filter_arb3)
+#[kani::proof]
+#[kani::unwind(8)]
+#[kani::stub(core::panic::Location::caller, stub_caller)]
+fn c03_filter_prefix_1() {
+    filter_prefix_at(1);
+}
+
+//@ harness: c03_filter_prefix_2
+//@ tier: quick
+//@ timeout: 900
+//@ mem: 10
+//@ covers: none
+//@ unwindset: memcmp.0=12; burn_string=12; eat_whitespace=6; json_unescape=8; memchr=12; walk_tags=6; read_u64=6; parse_json_filter=12
+//@ encodes: Filter::from_json, parse_json_filter, burn_array, json_unescape, read_u64
+//@ bounds: the valid text `{"kinds":[1],"#e":["ab"],"limit":3}` (35 bytes) cut after 2 bytes, arbitrary prior output buffer: no panic, consumed <= length
+//@ outside: lengths that are not an instance of this family; arbitrary input bytes at this level (decided on the kernels; thorough: c03_tags_arb2 / c03_filter_arb3)
+#[kani::proof]
+#[kani::unwind(8)]
+#[kani::stub(core::panic::Location::caller, stub_caller)]
+fn c03_filter_prefix_2() {
+    filter_prefix_at(2);
+}
+
+//@ harness: c03_filter_prefix_3
+//@ tier: seeded
+//@ group: filter_prefix
+//@ timeout: 900
+//@ mem: 10
+//@ covers: none
+//@ unwindset: memcmp.0=12; burn_string=12; eat_whitespace=6; json_unescape=8; memchr=12; walk_tags=6; read_u64=6; parse_json_filter=12
+//@ encodes: Filter::from_json, parse_json_filter, burn_array, json_unescape, read_u64
+//@ bounds: the valid text `{"kinds":[1],"#e":["ab"],"limit":3}` (35 bytes) cut after 3 bytes, arbitrary prior output buffer: no panic, consumed <= length
+//@ outside: lengths that are not an instance of this family; arbitrary input bytes at this level (decided on the kernels; thorough: c03_tags_arb2 / c03_filter_arb3)
+#[kani::proof]
+#[kani::unwind(8)]
+#[kani::stub(core::panic::Location::caller, stub_caller)]
+fn c03_filter_prefix_3() {
+    filter_prefix_at(3);
+}
+
+//@ harness: c03_filter_prefix_4
+//@ tier: seeded
+//@ group: filter_prefix
+//@ timeout: 900
+//@ mem: 10
+//@ covers: none
+//@ unwindset: memcmp.0=12; burn_string=12; eat_whitespace=6; json_unescape=8; memchr=12; walk_tags=6; read_u64=6; parse_json_filter=12
+//@ encodes: Filter::from_json, parse_json_filter, burn_array, json_unescape, read_u64
+//@ bounds: the valid text `{"kinds":[1],"#e":["ab"],"limit":3}` (35 bytes) cut after 4 bytes, arbitrary prior output buffer: no panic, consumed <= length
+//@ outside: lengths that are not an instance of this family; arbitrary input bytes at this level (decided on the kernels; thorough: c03_tags_arb2 / c03_filter_arb3)
+#[kani::proof]
+#[kani::unwind(8)]
+#[kani::stub(core::panic::Location::caller, stub_caller)]
+fn c03_filter_prefix_4() {
+    filter_prefix_at(4);
+}
+
+//@ harness: c03_filter_prefix_5
+//@ tier: seeded
+//@ group: filter_prefix
+//@ timeout: 900
+//@ mem: 10
+//@ covers: none
+//@ unwindset: memcmp.0=12; burn_string=12; eat_whitespace=6; json_unescape=8; memchr=12; walk_tags=6; read_u64=6; parse_json_filter=12
+//@ encodes: Filter::from_json, parse_json_filter, burn_array, json_unescape, read_u64
+//@ bounds: the valid text `{"kinds":[1],"#e":["ab"],"limit":3}` (35 bytes) cut after 5 bytes, arbitrary prior output buffer: no panic, consumed <= length
+//@ outside: lengths that are not an instance of this family; arbitrary input bytes at this level (decided on the kernels; thorough: c03_tags_arb2 / c03_filter_arb3)
+#[kani::proof]
+#[kani::unwind(8)]
+#[kani::stub(core::panic::Location::caller, stub_caller)]
+fn c03_filter_prefix_5() {
+    filter_prefix_at(5);
+}
+
+//@ harness: c03_filter_prefix_6
+//@ tier: seeded
+//@ group: filter_prefix
+//@ timeout: 900
+//@ mem: 10
+//@ covers: none
+//@ unwindset: memcmp.0=12; burn_string=12; eat_whitespace=6; json_unescape=8; memchr=12; walk_tags=6; read_u64=6; parse_json_filter=12
+//@ encodes: Filter::from_json, parse_json_filter, burn_array, json_unescape, read_u64
+//@ bounds: the valid text `{"kinds":[1],"#e":["ab"],"limit":3}` (35 bytes) cut after 6 bytes, arbitrary prior output buffer: no panic, consumed <= length
+//@ outside: lengths that are not an instance of this family; arbitrary input bytes at this level (decided on the kernels; thorough: c03_tags_arb2 / c03_filter_arb3)
+#[kani::proof]
+#[kani::unwind(8)]
+#[kani::stub(core::panic::Location::caller, stub_caller)]
+fn c03_filter_prefix_6() {
+    filter_prefix_at(6);
+}
+
+//@ harness: c03_filter_prefix_7
+//@ tier: seeded
+//@ group: filter_prefix
+//@ timeout: 900
+//@ mem: 10
+//@ covers: none
+//@ unwindset: memcmp.0=12; burn_string=12; eat_whitespace=6; json_unescape=8; memchr=12; walk_tags=6; read_u64=6; parse_json_filter=12
+//@ encodes: Filter::from_json, parse_json_filter, burn_array, json_unescape, read_u64
+//@ bounds: the valid text `{"kinds":[1],"#e":["ab"],"limit":3}` (35 bytes) cut after 7 bytes, arbitrary prior output buffer: no panic, consumed <= length
+//@ outside: lengths that are not an instance of this family; arbitrary input bytes at this level (decided on the kernels; thorough: c03_tags_arb2 / c03_filter_arb3)
+#[kani::proof]
+#[kani::unwind(8)]
+#[kani::stub(core::panic::Location::caller, stub_caller)]
+fn c03_filter_prefix_7() {
+    filter_prefix_at(7);
+}
+
+//@ harness: c03_filter_prefix_8
+//@ tier: seeded
+//@ group: filter_prefix
+//@ timeout: 900
+//@ mem: 10
+//@ covers: none
+//@ unwindset: memcmp.0=12; burn_string=12; eat_whitespace=6; json_unescape=8; memchr=12; walk_tags=6; read_u64=6; parse_json_filter=12
+//@ encodes: Filter::from_json, parse_json_filter, burn_array, json_unescape, read_u64
+//@ bounds: the valid text `{"kinds":[1],"#e":["ab"],"limit":3}` (35 bytes) cut after 8 bytes, arbitrary prior output buffer: no panic, consumed <= length
+//@ outside: lengths that are not an instance of this family; arbitrary input bytes at this level (decided on the kernels; thorough: c03_tags_arb2 / c03_filter_arb3)
+#[kani::proof]
+#[kani::unwind(8)]
+#[kani::stub(core::panic::Location::caller, stub_caller)]
+fn c03_filter_prefix_8() {
+    filter_prefix_at(8);
+}
+
+//@ harness: c03_filter_prefix_9
+//@ tier: seeded
+//@ group: filter_prefix
+//@ timeout: 900
+//@ mem: 10
+//@ covers: none
+//@ unwindset: memcmp.0=12; burn_string=12; eat_whitespace=6; json_unescape=8; memchr=12; walk_tags=6; read_u64=6; parse_json_filter=12
+//@ encodes: Filter::from_json, parse_json_filter, burn_array, json_unescape, read_u64
+//@ bounds: the valid text `{"kinds":[1],"#e":["ab"],"limit":3}` (35 bytes) cut after 9 bytes, arbitrary prior output buffer: no panic, consumed <= length
+//@ outside: lengths that are not an instance of this family; arbitrary input bytes at this level (decided on the kernels; thorough: c03_tags_arb2 / c03_filter_arb3)
+#[kani::proof]
+#[kani::unwind(8)]
+#[kani::stub(core::panic::Location::caller, stub_caller)]
+fn c03_filter_prefix_9() {
+    filter_prefix_at(9);
+}
+
+//@ harness: c03_filter_prefix_10
+//@ tier: seeded
+//@ group: filter_prefix
+//@ timeout: 900
+//@ mem: 10
+//@ covers: none
+//@ unwindset: memcmp.0=12; burn_string=12; eat_whitespace=6; json_unescape=8; memchr=12; walk_tags=6; read_u64=6; parse_json_filter=12
+//@ encodes: Filter::from_json, parse_json_filter, burn_array, json_unescape, read_u64
+//@ bounds: the valid text `{"kinds":[1],"#e":["ab"],"limit":3}` (35 bytes) cut after 10 bytes, arbitrary prior output buffer: no panic, consumed <= length
+//@ outside: lengths that are not an instance of this family; arbitrary input bytes at this level (decided on the kernels; thorough: c03_tags_arb2 / c03_filter_arb3)
+#[kani::proof]
+#[kani::unwind(8)]
+#[kani::stub(core::panic::Location::caller, stub_caller)]
+fn c03_filter_prefix_10() {
+    filter_prefix_at(10);
+}
+
+//@ harness: c03_filter_prefix_11
+//@ tier: seeded
+//@ group: filter_prefix
+//@ timeout: 900
+//@ mem: 10
+//@ covers: none
+//@ unwindset: memcmp.0=12; burn_string=12; eat_whitespace=6; json_unescape=8; memchr=12; walk_tags=6; read_u64=6; parse_json_filter=12
+//@ encodes: Filter::from_json, parse_json_filter, burn_array, json_unescape, read_u64
+//@ bounds: the valid text `{"kinds":[1],"#e":["ab"],"limit":3}` (35 bytes) cut after 11 bytes, arbitrary prior output buffer: no panic, consumed <= length
+//@ outside: lengths that are not an instance of this family; arbitrary input bytes at this level (decided on the kernels; thorough: c03_tags_arb2 / c03_filter_arb3)
+#[kani::proof]
+#[kani::unwind(8)]
+#[kani::stub(core::panic::Location::caller, stub_caller)]
+fn c03_filter_prefix_11() {
+    filter_prefix_at(11);
+}
+
+//@ harness: c03_filter_prefix_12
+//@ tier: seeded
+//@ group: filter_prefix
+//@ timeout: 900
+//@ mem: 10
+//@ covers: none
+//@ unwindset: memcmp.0=12; burn_string=12; eat_whitespace=6; json_unescape=8; memchr=12; walk_tags=6; read_u64=6; parse_json_filter=12
+//@ encodes: Filter::from_json, parse_json_filter, burn_array, json_unescape, read_u64
+//@ bounds: the valid text `{"kinds":[1],"#e":["ab"],"limit":3}` (35 bytes) cut after 12 bytes, arbitrary prior output buffer: no panic, consumed <= length
+//@ outside: lengths that are not an instance of this family; arbitrary input bytes at this level (decided on the kernels; thorough: c03_tags_arb2 / c03_filter_arb3)
+#[kani::proof]
+#[kani::unwind(8)]
+#[kani::stub(core::panic::Location::caller, stub_caller)]
+fn c03_filter_prefix_12() {
+    filter_prefix_at(12);
+}
+
+//@ harness: c03_filter_prefix_13
+//@ tier: seeded
+//@ timeout: 900
+//@ mem: 10
+//@ covers: none
+//@ unwindset: memcmp.0=12; burn_string=12; eat_whitespace=6; json_unescape=8; memchr=12; walk_tags=6; read_u64=6; parse_json_filter=12
+//@ encodes: Filter::from_json, parse_json_filter, burn_array, json_unescape, read_u64
+//@ bounds: the valid text `{"kinds":[1],"#e":["ab"],"limit":3}` (35 bytes) cut after 13 bytes, arbitrary prior output buffer: no panic, consumed <= length
+//@ outside: lengths that are not an instance of this family; arbitrary input bytes at this level (decided on the kernels; thorough: c03_tags_arb2 / c03_filter_arb3)
+#[kani::proof]
+#[kani::unwind(8)]
+#[kani::stub(core::panic::Location::caller, stub_caller)]
+fn c03_filter_prefix_13() {
+    filter_prefix_at(13);
+}
+
+//@ harness: c03_filter_prefix_14
+//@ tier: seeded
+//@ group: filter_prefix
+//@ timeout: 900
+//@ mem: 10
+//@ covers: none
+//@ unwindset: memcmp.0=12; burn_string=12; eat_whitespace=6; json_unescape=8; memchr=12; walk_tags=6; read_u64=6; parse_json_filter=12
+//@ encodes: Filter::from_json, parse_json_filter, burn_array, json_unescape, read_u64
+//@ bounds: the valid text `{"kinds":[1],"#e":["ab"],"limit":3}` (35 bytes) cut after 14 bytes, arbitrary prior output buffer: no panic, consumed <= length
+//@ outside: lengths that are not an instance of this family; arbitrary input bytes at this level (decided on the kernels; thorough: c03_tags_arb2 / c03_filter_arb3)
+#[kani::proof]
+#[kani::unwind(8)]
+#[kani::stub(core::panic::Location::caller, stub_caller)]
+fn c03_filter_prefix_14() {
+    filter_prefix_at(14);
+}
+
+//@ harness: c03_filter_prefix_15
+//@ tier: seeded
+//@ group: filter_prefix
+//@ timeout: 900
+//@ mem: 10
+//@ covers: none
+//@ unwindset: memcmp.0=12; burn_string=12; eat_whitespace=6; json_unescape=8; memchr=12; walk_tags=6; read_u64=6; parse_json_filter=12
+//@ encodes: Filter::from_json, parse_json_filter, burn_array, json_unescape, read_u64
+//@ bounds: the valid text `{"kinds":[1],"#e":["ab"],"limit":3}` (35 bytes) cut after 15 bytes, arbitrary prior output buffer: no panic, consumed <= length
+//@ outside: lengths that are not an instance of this family; arbitrary input bytes at this level (decided on the kernels; thorough: c03_tags_arb2 / c03_filter_arb3)
+#[kani::proof]
+#[kani::unwind(8)]
+#[kani::stub(core::panic::Location::caller, stub_caller)]
+fn c03_filter_prefix_15() {
+    filter_prefix_at(15);
+}
+
+//@ harness: c03_filter_prefix_16
+//@ tier: seeded
+//@ group: filter_prefix
+//@ timeout: 900
+//@ mem: 10
+//@ covers: none
+//@ unwindset: memcmp.0=12; burn_string=12; eat_whitespace=6; json_unescape=8; memchr=12; walk_tags=6; read_u64=6; parse_json_filter=12
+//@ encodes: Filter::from_json, parse_json_filter, burn_array, json_unescape, read_u64
+//@ bounds: the valid text `{"kinds":[1],"#e":["ab"],"limit":3}` (35 bytes) cut after 16 bytes, arbitrary prior output buffer: no panic, consumed <= length
+//@ outside: lengths that are not an instance of this family; arbitrary input bytes at this level (decided on the kernels; thorough: c03_tags_arb2 / c03_filter_arb3)
+#[kani::proof]
+#[kani::unwind(8)]
+#[kani::stub(core::panic::Location::caller, stub_caller)]
+fn c03_filter_prefix_16() {
+    filter_prefix_at(16);
+}
+
+//@ harness: c03_filter_prefix_17
+//@ tier: seeded
+//@ group: filter_prefix
+//@ timeout: 900
+//@ mem: 10
+//@ covers: none
+//@ unwindset: memcmp.0=12; burn_string=12; eat_whitespace=6; json_unescape=8; memchr=12; walk_tags=6; read_u64=6; parse_json_filter=12
+//@ encodes: Filter::from_json, parse_json_filter, burn_array, json_unescape, read_u64
+//@ bounds: the valid text `{"kinds":[1],"#e":["ab"],"limit":3}` (35 bytes) cut after 17 bytes, arbitrary prior output buffer: no panic, consumed <= length
+//@ outside: lengths that are not an instance of this family; arbitrary input bytes at this level (decided on the kernels; thorough: c03_tags_arb2 / c03_filter_arb3)
+#[kani::proof]
+#[kani::unwind(8)]
+#[kani::stub(core::panic::Location::caller, stub_caller)]
+fn c03_filter_prefix_17() {
+    filter_prefix_at(17);
+}
+
+//@ harness: c03_filter_prefix_18
+//@ tier: seeded
+//@ group: filter_prefix
+//@ timeout: 900
+//@ mem: 10
+//@ covers: none
+//@ unwindset: memcmp.0=12; burn_string=12; eat_whitespace=6; json_unescape=8; memchr=12; walk_tags=6; read_u64=6; parse_json_filter=12
+//@ encodes: Filter::from_json, parse_json_filter, burn_array, json_unescape, read_u64
+//@ bounds: the valid text `{"kinds":[1],"#e":["ab"],"limit":3}` (35 bytes) cut after 18 bytes, arbitrary prior output buffer: no panic, consumed <= length
+//@ outside: lengths that are not an instance of this family; arbitrary input bytes at this level (decided on the kernels; thorough: c03_tags_arb2 / c03_filter_arb3)
+#[kani::proof]
+#[kani::unwind(8)]
+#[kani::stub(core::panic::Location::caller, stub_caller)]
+fn c03_filter_prefix_18() {
+    filter_prefix_at(18);
+}
+
+//@ harness: c03_filter_prefix_19
+//@ tier: seeded
+//@ group: filter_prefix
+//@ timeout: 900
+//@ mem: 10
+//@ covers: none
+//@ unwindset: memcmp.0=12; burn_string=12; eat_whitespace=6; json_unescape=8; memchr=12; walk_tags=6; read_u64=6; parse_json_filter=12
+//@ encodes: Filter::from_json, parse_json_filter, burn_array, json_unescape, read_u64
+//@ bounds: the valid text `{"kinds":[1],"#e":["ab"],"limit":3}` (35 bytes) cut after 19 bytes, arbitrary prior output buffer: no panic, consumed <= length
+//@ outside: lengths that are not an instance of this family; arbitrary input bytes at this level (decided on the kernels; thorough: c03_tags_arb2 / c03_filter_arb3)
+#[kani::proof]
+#[kani::unwind(8)]
+#[kani::stub(core::panic::Location::caller, stub_caller)]
+fn c03_filter_prefix_19() {
+    filter_prefix_at(19);
+}
+
+//@ harness: c03_filter_prefix_20
+//@ tier: seeded
+//@ group: filter_prefix
+//@ timeout: 900
+//@ mem: 10
+//@ covers: none
+//@ unwindset: memcmp.0=12; burn_string=12; eat_whitespace=6; json_unescape=8; memchr=12; walk_tags=6; read_u64=6; parse_json_filter=12
+//@ encodes: Filter::from_json, parse_json_filter, burn_array, json_unescape, read_u64
+//@ bounds: the valid text `{"kinds":[1],"#e":["ab"],"limit":3}` (35 bytes) cut after 20 bytes, arbitrary prior output buffer: no panic, consumed <= length
+//@ outside: lengths that are not an instance of this family; arbitrary input bytes at this level (decided on the kernels; thorough: c03_tags_arb2 / c03_filter_arb3)
+#[kani::proof]
+#[kani::unwind(8)]
+#[kani::stub(core::panic::Location::caller, stub_caller)]
+fn c03_filter_prefix_20() {
+    filter_prefix_at(20);
+}
+
+//@ harness: c03_filter_prefix_21
+//@ tier: seeded
+//@ group: filter_prefix
+//@ timeout: 900
+//@ mem: 10
+//@ covers: none
+//@ unwindset: memcmp.0=12; burn_string=12; eat_whitespace=6; json_unescape=8; memchr=12; walk_tags=6; read_u64=6; parse_json_filter=12
+//@ encodes: Filter::from_json, parse_json_filter, burn_array, json_unescape, read_u64
+//@ bounds: the valid text `{"kinds":[1],"#e":["ab"],"limit":3}` (35 bytes) cut after 21 bytes, arbitrary prior output buffer: no panic, consumed <= length
+//@ outside: lengths that are not an instance of this family; arbitrary input bytes at this level (decided on the kernels; thorough: c03_tags_arb2 / c03_filter_arb3)
+#[kani::proof]
+#[kani::unwind(8)]
+#[kani::stub(core::panic::Location::caller, stub_caller)]
+fn c03_filter_prefix_21() {
+    filter_prefix_at(21);
+}
+
+//@ harness: c03_filter_prefix_22
+//@ tier: seeded
+//@ group: filter_prefix
+//@ timeout: 900
+//@ mem: 10
+//@ covers: none
+//@ unwindset: memcmp.0=12; burn_string=12; eat_whitespace=6; json_unescape=8; memchr=12; walk_tags=6; read_u64=6; parse_json_filter=12
+//@ encodes: Filter::from_json, parse_json_filter, burn_array, json_unescape, read_u64
+//@ bounds: the valid text `{"kinds":[1],"#e":["ab"],"limit":3}` (35 bytes) cut after 22 bytes, arbitrary prior output buffer: no panic, consumed <= length
+//@ outside: lengths that are not an instance of this family; arbitrary input bytes at this level (decided on the kernels; thorough: c03_tags_arb2 / c03_filter_arb3)
+#[kani::proof]
+#[kani::unwind(8)]
+#[kani::stub(core::panic::Location::caller, stub_caller)]
+fn c03_filter_prefix_22() {
+    filter_prefix_at(22);
+}
+
+//@ harness: c03_filter_prefix_23
+//@ tier: seeded
+//@ group: filter_prefix
+//@ timeout: 900
+//@ mem: 10
+//@ covers: none
+//@ unwindset: memcmp.0=12; burn_string=12; eat_whitespace=6; json_unescape=8; memchr=12; walk_tags=6; read_u64=6; parse_json_filter=12
+//@ encodes: Filter::from_json, parse_json_filter, burn_array, json_unescape, read_u64
+//@ bounds: the valid text `{"kinds":[1],"#e":["ab"],"limit":3}` (35 bytes) cut after 23 bytes, arbitrary prior output buffer: no panic, consumed <= length
+//@ outside: lengths that are not an instance of this family; arbitrary input bytes at this level (decided on the kernels; thorough: c03_tags_arb2 / c03_filter_arb3)
+#[kani::proof]
+#[kani::unwind(8)]
+#[kani::stub(core::panic::Location::caller, stub_caller)]
+fn c03_filter_prefix_23() {
+    filter_prefix_at(23);
+}
+
+//@ harness: c03_filter_prefix_24
+//@ tier: seeded
+//@ timeout: 900
+//@ mem: 10
+//@ covers: none
+//@ unwindset: memcmp.0=12; burn_string=12; eat_whitespace=6; json_unescape=8; memchr=12; walk_tags=6; read_u64=6; parse_json_filter=12
+//@ encodes: Filter::from_json, parse_json_filter, burn_array, json_unescape, read_u64
+//@ bounds: the valid text `{"kinds":[1],"#e":["ab"],"limit":3}` (35 bytes) cut after 24 bytes, arbitrary prior output buffer: no panic, consumed <= length
+//@ outside: lengths that are not an instance of this family; arbitrary input bytes at this level (decided on the kernels; thorough: c03_tags_arb2 / c03_filter_arb3)
+#[kani::proof]
+#[kani::unwind(8)]
+#[kani::stub(core::panic::Location::caller, stub_caller)]
+fn c03_filter_prefix_24() {
+    filter_prefix_at(24);
+}
+
+//@ harness: c03_filter_prefix_25
+//@ tier: seeded
+//@ group: filter_prefix
+//@ timeout: 900
+//@ mem: 10
+//@ covers: none
+//@ unwindset: memcmp.0=12; burn_string=12; eat_whitespace=6; json_unescape=8; memchr=12; walk_tags=6; read_u64=6; parse_json_filter=12
+//@ encodes: Filter::from_json, parse_json_filter, burn_array, json_unescape, read_u64
+//@ bounds: the valid text `{"kinds":[1],"#e":["ab"],"limit":3}` (35 bytes) cut after 25 bytes, arbitrary prior output buffer: no panic, consumed <= length
+//@ outside: lengths that are not an instance of this family; arbitrary input bytes at this level (decided on the kernels; thorough: c03_tags_arb2 / c03_filter_arb3)
+#[kani::proof]
+#[kani::unwind(8)]
+#[kani::stub(core::panic::Location::caller, stub_caller)]
+fn c03_filter_prefix_25() {
+    filter_prefix_at(25);
+}
+
+//@ harness: c03_filter_prefix_26
+//@ tier: seeded
+//@ group: filter_prefix
+//@ timeout: 900
+//@ mem: 10
+//@ covers: none
+//@ unwindset: memcmp.0=12; burn_string=12; eat_whitespace=6; json_unescape=8; memchr=12; walk_tags=6; read_u64=6; parse_json_filter=12
+//@ encodes: Filter::from_json, parse_json_filter, burn_array, json_unescape, read_u64
+//@ bounds: the valid text `{"kinds":[1],"#e":["ab"],"limit":3}` (35 bytes) cut after 26 bytes, arbitrary prior output buffer: no panic, consumed <= length
+//@ outside: lengths that are not an instance of this family; arbitrary input bytes at this level (decided on the kernels; thorough: c03_tags_arb2 / c03_filter_arb3)
+#[kani::proof]
+#[kani::unwind(8)]
+#[kani::stub(core::panic::Location::caller, stub_caller)]
+fn c03_filter_prefix_26() {
+    filter_prefix_at(26);
+}
+
+//@ harness: c03_filter_prefix_27
+//@ tier: seeded
+//@ group: filter_prefix
+//@ timeout: 900
+//@ mem: 10
+//@ covers: none
+//@ unwindset: memcmp.0=12; burn_string=12; eat_whitespace=6; json_unescape=8; memchr=12; walk_tags=6; read_u64=6; parse_json_filter=12
+//@ encodes: Filter::from_json, parse_json_filter, burn_array, json_unescape, read_u64
+//@ bounds: the valid text `{"kinds":[1],"#e":["ab"],"limit":3}` (35 bytes) cut after 27 bytes, arbitrary prior output buffer: no panic, consumed <= length
+//@ outside: lengths that are not an instance of this family; arbitrary input bytes at this level (decided on the kernels; thorough: c03_tags_arb2 / c03_filter_arb3)
+#[kani::proof]
+#[kani::unwind(8)]
+#[kani::stub(core::panic::Location::caller, stub_caller)]
+fn c03_filter_prefix_27() {
+    filter_prefix_at(27);
+}
+
+//@ harness: c03_filter_prefix_28
+//@ tier: seeded
+//@ group: filter_prefix
+//@ timeout: 900
+//@ mem: 10
+//@ covers: none
+//@ unwindset: memcmp.0=12; burn_string=12; eat_whitespace=6; json_unescape=8; memchr=12; walk_tags=6; read_u64=6; parse_json_filter=12
+//@ encodes: Filter::from_json, parse_json_filter, burn_array, json_unescape, read_u64
+//@ bounds: the valid text `{"kinds":[1],"#e":["ab"],"limit":3}` (35 bytes) cut after 28 bytes, arbitrary prior output buffer: no panic, consumed <= length
+//@ outside: lengths that are not an instance of this family; arbitrary input bytes at this level (decided on the kernels; thorough: c03_tags_arb2 / c03_filter_arb3)
+#[kani::proof]
+#[kani::unwind(8)]
+#[kani::stub(core::panic::Location::caller, stub_caller)]
+fn c03_filter_prefix_28() {
+    filter_prefix_at(28);
+}
+
+//@ harness: c03_filter_prefix_29
+//@ tier: seeded
+//@ group: filter_prefix
+//@ timeout: 900
+//@ mem: 10
+//@ covers: none
+//@ unwindset: memcmp.0=12; burn_string=12; eat_whitespace=6; json_unescape=8; memchr=12; walk_tags=6; read_u64=6; parse_json_filter=12
+//@ encodes: Filter::from_json, parse_json_filter, burn_array, json_unescape, read_u64
+//@ bounds: the valid text `{"kinds":[1],"#e":["ab"],"limit":3}` (35 bytes) cut after 29 bytes, arbitrary prior output buffer: no panic, consumed <= length
+//@ outside: lengths that are not an instance of this family; arbitrary input bytes at this level (decided on the kernels; thorough: c03_tags_arb2 / c03_filter_arb3)
+#[kani::proof]
+#[kani::unwind(8)]
+#[kani::stub(core::panic::Location::caller, stub_caller)]
+fn c03_filter_prefix_29() {
+    filter_prefix_at(29);
+}
+
+//@ harness: c03_filter_prefix_30
+//@ tier: seeded
+//@ group: filter_prefix
+//@ timeout: 900
+//@ mem: 10
+//@ covers: none
+//@ unwindset: memcmp.0=12; burn_string=12; eat_whitespace=6; json_unescape=8; memchr=12; walk_tags=6; read_u64=6; parse_json_filter=12
+//@ encodes: Filter::from_json, parse_json_filter, burn_array, json_unescape, read_u64
+//@ bounds: the valid text `{"kinds":[1],"#e":["ab"],"limit":3}` (35 bytes) cut after 30 bytes, arbitrary prior output buffer: no panic, consumed <= length
+//@ outside: lengths that are not an instance of this family; arbitrary input bytes at this level (decided on the kernels; thorough: c03_tags_arb2 / c03_filter_arb3)
+#[kani::proof]
+#[kani::unwind(8)]
+#[kani::stub(core::panic::Location::caller, stub_caller)]
+fn c03_filter_prefix_30() {
+    filter_prefix_at(30);
+}
+
+//@ harness: c03_filter_prefix_31
+//@ tier: seeded
+//@ group: filter_prefix
+//@ timeout: 900
+//@ mem: 10
+//@ covers: none
+//@ unwindset: memcmp.0=12; burn_string=12; eat_whitespace=6; json_unescape=8; memchr=12; walk_tags=6; read_u64=6; parse_json_filter=12
+//@ encodes: Filter::from_json, parse_json_filter, burn_array, json_unescape, read_u64
+//@ bounds: the valid text `{"kinds":[1],"#e":["ab"],"limit":3}` (35 bytes) cut after 31 bytes, arbitrary prior output buffer: no panic, consumed <= length
+//@ outside: lengths that are not an instance of this family; arbitrary input bytes at this level (decided on the kernels; thorough: c03_tags_arb2 / c03_filter_arb3)
+#[kani::proof]
+#[kani::unwind(8)]
+#[kani::stub(core::panic::Location::caller, stub_caller)]
+fn c03_filter_prefix_31() {
+    filter_prefix_at(31);
+}
+
+//@ harness: c03_filter_prefix_32
+//@ tier: seeded
+//@ group: filter_prefix
+//@ timeout: 900
+//@ mem: 10
+//@ covers: none
+//@ unwindset: memcmp.0=12; burn_string=12; eat_whitespace=6; json_unescape=8; memchr=12; walk_tags=6; read_u64=6; parse_json_filter=12
+//@ encodes: Filter::from_json, parse_json_filter, burn_array, json_unescape, read_u64
+//@ bounds: the valid text `{"kinds":[1],"#e":["ab"],"limit":3}` (35 bytes) cut after 32 bytes, arbitrary prior output buffer: no panic, consumed <= length
+//@ outside: lengths that are not an instance of this family; arbitrary input bytes at this level (decided on the kernels; thorough: c03_tags_arb2 / c03_filter_arb3)
+#[kani::proof]
+#[kani::unwind(8)]
+#[kani::stub(core::panic::Location::caller, stub_caller)]
+fn c03_filter_prefix_32() {
+    filter_prefix_at(32);
+}
+
+//@ harness: c03_filter_prefix_33
+//@ tier: seeded
+//@ group: filter_prefix
+//@ timeout: 900
+//@ mem: 10
+//@ covers: none
+//@ unwindset: memcmp.0=12; burn_string=12; eat_whitespace=6; json_unescape=8; memchr=12; walk_tags=6; read_u64=6; parse_json_filter=12
+//@ encodes: Filter::from_json, parse_json_filter, burn_array, json_unescape, read_u64
+//@ bounds: the valid text `{"kinds":[1],"#e":["ab"],"limit":3}` (35 bytes) cut after 33 bytes, arbitrary prior output buffer: no panic, consumed <= length
+//@ outside: lengths that are not an instance of this family; arbitrary input bytes at this level (decided on the kernels; thorough: c03_tags_arb2 / c03_filter_arb3)
+#[kani::proof]
+#[kani::unwind(8)]
+#[kani::stub(core::panic::Location::caller, stub_caller)]
+fn c03_filter_prefix_33() {
+    filter_prefix_at(33);
+}
+
+//@ harness: c03_filter_prefix_34
+//@ tier: seeded
+//@ group: filter_prefix
+//@ timeout: 900
+//@ mem: 10
+//@ covers: none
+//@ unwindset: memcmp.0=12; burn_string=12; eat_whitespace=6; json_unescape=8; memchr=12; walk_tags=6; read_u64=6; parse_json_filter=12
+//@ encodes: Filter::from_json, parse_json_filter, burn_array, json_unescape, read_u64
+//@ bounds: the valid text `{"kinds":[1],"#e":["ab"],"limit":3}` (35 bytes) cut after 34 bytes, arbitrary prior output buffer: no panic, consumed <= length
+//@ outside: lengths that are not an instance of this family; arbitrary input bytes at this level (decided on the kernels; thorough: c03_tags_arb2 / c03_filter_arb3)
+#[kani::proof]
+#[kani::unwind(8)]
+#[kani::stub(core::panic::Location::caller, stub_caller)]
+fn c03_filter_prefix_34() {
+    filter_prefix_at(34);
+}
+
+//@ harness: c03_filter_prefix_35
+//@ tier: quick
+//@ timeout: 900
+//@ mem: 10
+//@ covers: none
+//@ unwindset: memcmp.0=12; burn_string=12; eat_whitespace=6; json_unescape=8; memchr=12; walk_tags=6; read_u64=6; parse_json_filter=12
+//@ encodes: Filter::from_json, parse_json_filter, burn_array, json_unescape, read_u64
+//@ bounds: the valid text `{"kinds":[1],"#e":["ab"],"limit":3}` (35 bytes) cut after 35 bytes, arbitrary prior output buffer: no panic, consumed <= length
+//@ outside: lengths that are not an instance of this family; arbitrary input bytes at this level (decided on the kernels; thorough: c03_tags_arb2 / c03_filter_arb3)
+#[kani::proof]
+#[kani::unwind(8)]
+#[kani::stub(core::panic::Location::caller, stub_caller)]
+fn c03_filter_prefix_35() {
+    filter_prefix_at(35);
+}
+
+//@ harness: c03_filter_outlen_0
+//@ tier: seeded
+//@ group: filter_outlen
+//@ timeout: 900
+//@ mem: 10
+//@ covers: none
+//@ unwindset: memcmp.0=12; burn_string=12; eat_whitespace=6; json_unescape=8; memchr=12; walk_tags=6; read_u64=6; parse_json_filter=12
 //@ encodes: Filter::from_json, parse_json_filter, put
-//@ bounds: the valid text `{"kinds":[1],"#e":["ab"],"limit":3}` with one arbitrary printable value byte, parsed into every output length in the range named by the harness (needs 51; all lengths 0..=54), arbitrary prior buffer contents: no panic, error below the needed size
+//@ bounds: the valid text `{"kinds":[1],"#e":["ab"],"limit":3}` parsed into an output buffer of exactly 0 bytes (needs 51), arbitrary prior contents: no panic, error below the needed size
+//@ outside: lengths that are not an instance of this family; arbitrary input bytes at this level (decided on the kernels; thorough: c03_tags_arb2 / c03_filter_arb3)
 #[kani::proof]
 #[kani::unwind(8)]
 #[kani::stub(core::panic::Location::caller, stub_caller)]
-fn c03_filter_outlen_0_20() {
-    filter_outlens(0, 20);
+fn c03_filter_outlen_0() {
+    filter_outlen_at(0);
 }
+
+//@ harness: c03_filter_outlen_16
+//@ tier: seeded
+//@ group: filter_outlen
+//@ timeout: 900
+//@ mem: 10
+//@ covers: none
+//@ unwindset: memcmp.0=12; burn_string=12; eat_whitespace=6; json_unescape=8; memchr=12; walk_tags=6; read_u64=6; parse_json_filter=12
+//@ encodes: Filter::from_json, parse_json_filter, put
+//@ bounds: the valid text `{"kinds":[1],"#e":["ab"],"limit":3}` parsed into an output buffer of exactly 16 bytes (needs 51), arbitrary prior contents: no panic, error below the needed size
+//@ outside: lengths that are not an instance of this family; arbitrary input bytes at this level (decided on the kernels; thorough: c03_tags_arb2 / c03_filter_arb3)
 #[kani::proof]
 #[kani::unwind(8)]
 #[kani::stub(core::panic::Location::caller, stub_caller)]
-fn c03_filter_outlen_21_36() {
-    filter_outlens(21, 36);
+fn c03_filter_outlen_16() {
+    filter_outlen_at(16);
 }
+
+//@ harness: c03_filter_outlen_31
+//@ tier: quick
+//@ timeout: 900
+//@ mem: 10
+//@ covers: none
+//@ unwindset: memcmp.0=12; burn_string=12; eat_whitespace=6; json_unescape=8; memchr=12; walk_tags=6; read_u64=6; parse_json_filter=12
+//@ encodes: Filter::from_json, parse_json_filter, put
+//@ bounds: the valid text `{"kinds":[1],"#e":["ab"],"limit":3}` parsed into an output buffer of exactly 31 bytes (needs 51), arbitrary prior contents: no panic, error below the needed size
+//@ outside: lengths that are not an instance of this family; arbitrary input bytes at this level (decided on the kernels; thorough: c03_tags_arb2 / c03_filter_arb3)
 #[kani::proof]
 #[kani::unwind(8)]
 #[kani::stub(core::panic::Location::caller, stub_caller)]
-fn c03_filter_outlen_37_46() {
-    filter_outlens(37, 46);
+fn c03_filter_outlen_31() {
+    filter_outlen_at(31);
 }
+
+//@ harness: c03_filter_outlen_32
+//@ tier: seeded
+//@ group: filter_outlen
+//@ timeout: 900
+//@ mem: 10
+//@ covers: none
+//@ unwindset: memcmp.0=12; burn_string=12; eat_whitespace=6; json_unescape=8; memchr=12; walk_tags=6; read_u64=6; parse_json_filter=12
+//@ encodes: Filter::from_json, parse_json_filter, put
+//@ bounds: the valid text `{"kinds":[1],"#e":["ab"],"limit":3}` parsed into an output buffer of exactly 32 bytes (needs 51), arbitrary prior contents: no panic, error below the needed size
+//@ outside: lengths that are not an instance of this family; arbitrary input bytes at this level (decided on the kernels; thorough: c03_tags_arb2 / c03_filter_arb3)
 #[kani::proof]
 #[kani::unwind(8)]
 #[kani::stub(core::panic::Location::caller, stub_caller)]
-fn c03_filter_outlen_47_54() {
-    filter_outlens(47, 54);
+fn c03_filter_outlen_32() {
+    filter_outlen_at(32);
+}
+
+//@ harness: c03_filter_outlen_33
+//@ tier: seeded
+//@ group: filter_outlen
+//@ timeout: 900
+//@ mem: 10
+//@ covers: none
+//@ unwindset: memcmp.0=12; burn_string=12; eat_whitespace=6; json_unescape=8; memchr=12; walk_tags=6; read_u64=6; parse_json_filter=12
+//@ encodes: Filter::from_json, parse_json_filter, put
+//@ bounds: the valid text `{"kinds":[1],"#e":["ab"],"limit":3}` parsed into an output buffer of exactly 33 bytes (needs 51), arbitrary prior contents: no panic, error below the needed size
+//@ outside: lengths that are not an instance of this family; arbitrary input bytes at this level (decided on the kernels; thorough: c03_tags_arb2 / c03_filter_arb3)
+#[kani::proof]
+#[kani::unwind(8)]
+#[kani::stub(core::panic::Location::caller, stub_caller)]
+fn c03_filter_outlen_33() {
+    filter_outlen_at(33);
+}
+
+//@ harness: c03_filter_outlen_34
+//@ tier: seeded
+//@ group: filter_outlen
+//@ timeout: 900
+//@ mem: 10
+//@ covers: none
+//@ unwindset: memcmp.0=12; burn_string=12; eat_whitespace=6; json_unescape=8; memchr=12; walk_tags=6; read_u64=6; parse_json_filter=12
+//@ encodes: Filter::from_json, parse_json_filter, put
+//@ bounds: the valid text `{"kinds":[1],"#e":["ab"],"limit":3}` parsed into an output buffer of exactly 34 bytes (needs 51), arbitrary prior contents: no panic, error below the needed size
+//@ outside: lengths that are not an instance of this family; arbitrary input bytes at this level (decided on the kernels; thorough: c03_tags_arb2 / c03_filter_arb3)
+#[kani::proof]
+#[kani::unwind(8)]
+#[kani::stub(core::panic::Location::caller, stub_caller)]
+fn c03_filter_outlen_34() {
+    filter_outlen_at(34);
+}
+
+//@ harness: c03_filter_outlen_35
+//@ tier: seeded
+//@ group: filter_outlen
+//@ timeout: 900
+//@ mem: 10
+//@ covers: none
+//@ unwindset: memcmp.0=12; burn_string=12; eat_whitespace=6; json_unescape=8; memchr=12; walk_tags=6; read_u64=6; parse_json_filter=12
+//@ encodes: Filter::from_json, parse_json_filter, put
+//@ bounds: the valid text `{"kinds":[1],"#e":["ab"],"limit":3}` parsed into an output buffer of exactly 35 bytes (needs 51), arbitrary prior contents: no panic, error below the needed size
+//@ outside: lengths that are not an instance of this family; arbitrary input bytes at this level (decided on the kernels; thorough: c03_tags_arb2 / c03_filter_arb3)
+#[kani::proof]
+#[kani::unwind(8)]
+#[kani::stub(core::panic::Location::caller, stub_caller)]
+fn c03_filter_outlen_35() {
+    filter_outlen_at(35);
+}
+
+//@ harness: c03_filter_outlen_36
+//@ tier: seeded
+//@ group: filter_outlen
+//@ timeout: 900
+//@ mem: 10
+//@ covers: none
+//@ unwindset: memcmp.0=12; burn_string=12; eat_whitespace=6; json_unescape=8; memchr=12; walk_tags=6; read_u64=6; parse_json_filter=12
+//@ encodes: Filter::from_json, parse_json_filter, put
+//@ bounds: the valid text `{"kinds":[1],"#e":["ab"],"limit":3}` parsed into an output buffer of exactly 36 bytes (needs 51), arbitrary prior contents: no panic, error below the needed size
+//@ outside: lengths that are not an instance of this family; arbitrary input bytes at this level (decided on the kernels; thorough: c03_tags_arb2 / c03_filter_arb3)
+#[kani::proof]
+#[kani::unwind(8)]
+#[kani::stub(core::panic::Location::caller, stub_caller)]
+fn c03_filter_outlen_36() {
+    filter_outlen_at(36);
+}
+
+//@ harness: c03_filter_outlen_38
+//@ tier: seeded
+//@ group: filter_outlen
+//@ timeout: 900
+//@ mem: 10
+//@ covers: none
+//@ unwindset: memcmp.0=12; burn_string=12; eat_whitespace=6; json_unescape=8; memchr=12; walk_tags=6; read_u64=6; parse_json_filter=12
+//@ encodes: Filter::from_json, parse_json_filter, put
+//@ bounds: the valid text `{"kinds":[1],"#e":["ab"],"limit":3}` parsed into an output buffer of exactly 38 bytes (needs 51), arbitrary prior contents: no panic, error below the needed size
+//@ outside: lengths that are not an instance of this family; arbitrary input bytes at this level (decided on the kernels; thorough: c03_tags_arb2 / c03_filter_arb3)
+#[kani::proof]
+#[kani::unwind(8)]
+#[kani::stub(core::panic::Location::caller, stub_caller)]
+fn c03_filter_outlen_38() {
+    filter_outlen_at(38);
+}
+
+//@ harness: c03_filter_outlen_40
+//@ tier: seeded
+//@ group: filter_outlen
+//@ timeout: 900
+//@ mem: 10
+//@ covers: none
+//@ unwindset: memcmp.0=12; burn_string=12; eat_whitespace=6; json_unescape=8; memchr=12; walk_tags=6; read_u64=6; parse_json_filter=12
+//@ encodes: Filter::from_json, parse_json_filter, put
+//@ bounds: the valid text `{"kinds":[1],"#e":["ab"],"limit":3}` parsed into an output buffer of exactly 40 bytes (needs 51), arbitrary prior contents: no panic, error below the needed size
+//@ outside: lengths that are not an instance of this family; arbitrary input bytes at this level (decided on the kernels; thorough: c03_tags_arb2 / c03_filter_arb3)
+#[kani::proof]
+#[kani::unwind(8)]
+#[kani::stub(core::panic::Location::caller, stub_caller)]
+fn c03_filter_outlen_40() {
+    filter_outlen_at(40);
+}
+
+//@ harness: c03_filter_outlen_41
+//@ tier: seeded
+//@ group: filter_outlen
+//@ timeout: 900
+//@ mem: 10
+//@ covers: none
+//@ unwindset: memcmp.0=12; burn_string=12; eat_whitespace=6; json_unescape=8; memchr=12; walk_tags=6; read_u64=6; parse_json_filter=12
+//@ encodes: Filter::from_json, parse_json_filter, put
+//@ bounds: the valid text `{"kinds":[1],"#e":["ab"],"limit":3}` parsed into an output buffer of exactly 41 bytes (needs 51), arbitrary prior contents: no panic, error below the needed size
+//@ outside: lengths that are not an instance of this family; arbitrary input bytes at this level (decided on the kernels; thorough: c03_tags_arb2 / c03_filter_arb3)
+#[kani::proof]
+#[kani::unwind(8)]
+#[kani::stub(core::panic::Location::caller, stub_caller)]
+fn c03_filter_outlen_41() {
+    filter_outlen_at(41);
+}
+
+//@ harness: c03_filter_outlen_42
+//@ tier: seeded
+//@ group: filter_outlen
+//@ timeout: 900
+//@ mem: 10
+//@ covers: none
+//@ unwindset: memcmp.0=12; burn_string=12; eat_whitespace=6; json_unescape=8; memchr=12; walk_tags=6; read_u64=6; parse_json_filter=12
+//@ encodes: Filter::from_json, parse_json_filter, put
+//@ bounds: the valid text `{"kinds":[1],"#e":["ab"],"limit":3}` parsed into an output buffer of exactly 42 bytes (needs 51), arbitrary prior contents: no panic, error below the needed size
+//@ outside: lengths that are not an instance of this family; arbitrary input bytes at this level (decided on the kernels; thorough: c03_tags_arb2 / c03_filter_arb3)
+#[kani::proof]
+#[kani::unwind(8)]
+#[kani::stub(core::panic::Location::caller, stub_caller)]
+fn c03_filter_outlen_42() {
+    filter_outlen_at(42);
+}
+
+//@ harness: c03_filter_outlen_44
+//@ tier: seeded
+//@ group: filter_outlen
+//@ timeout: 900
+//@ mem: 10
+//@ covers: none
+//@ unwindset: memcmp.0=12; burn_string=12; eat_whitespace=6; json_unescape=8; memchr=12; walk_tags=6; read_u64=6; parse_json_filter=12
+//@ encodes: Filter::from_json, parse_json_filter, put
+//@ bounds: the valid text `{"kinds":[1],"#e":["ab"],"limit":3}` parsed into an output buffer of exactly 44 bytes (needs 51), arbitrary prior contents: no panic, error below the needed size
+//@ outside: lengths that are not an instance of this family; arbitrary input bytes at this level (decided on the kernels; thorough: c03_tags_arb2 / c03_filter_arb3)
+#[kani::proof]
+#[kani::unwind(8)]
+#[kani::stub(core::panic::Location::caller, stub_caller)]
+fn c03_filter_outlen_44() {
+    filter_outlen_at(44);
+}
+
+//@ harness: c03_filter_outlen_46
+//@ tier: seeded
+//@ group: filter_outlen
+//@ timeout: 900
+//@ mem: 10
+//@ covers: none
+//@ unwindset: memcmp.0=12; burn_string=12; eat_whitespace=6; json_unescape=8; memchr=12; walk_tags=6; read_u64=6; parse_json_filter=12
+//@ encodes: Filter::from_json, parse_json_filter, put
+//@ bounds: the valid text `{"kinds":[1],"#e":["ab"],"limit":3}` parsed into an output buffer of exactly 46 bytes (needs 51), arbitrary prior contents: no panic, error below the needed size
+//@ outside: lengths that are not an instance of this family; arbitrary input bytes at this level (decided on the kernels; thorough: c03_tags_arb2 / c03_filter_arb3)
+#[kani::proof]
+#[kani::unwind(8)]
+#[kani::stub(core::panic::Location::caller, stub_caller)]
+fn c03_filter_outlen_46() {
+    filter_outlen_at(46);
+}
+
+//@ harness: c03_filter_outlen_48
+//@ tier: seeded
+//@ group: filter_outlen
+//@ timeout: 900
+//@ mem: 10
+//@ covers: none
+//@ unwindset: memcmp.0=12; burn_string=12; eat_whitespace=6; json_unescape=8; memchr=12; walk_tags=6; read_u64=6; parse_json_filter=12
+//@ encodes: Filter::from_json, parse_json_filter, put
+//@ bounds: the valid text `{"kinds":[1],"#e":["ab"],"limit":3}` parsed into an output buffer of exactly 48 bytes (needs 51), arbitrary prior contents: no panic, error below the needed size
+//@ outside: lengths that are not an instance of this family; arbitrary input bytes at this level (decided on the kernels; thorough: c03_tags_arb2 / c03_filter_arb3)
+#[kani::proof]
+#[kani::unwind(8)]
+#[kani::stub(core::panic::Location::caller, stub_caller)]
+fn c03_filter_outlen_48() {
+    filter_outlen_at(48);
+}
+
+//@ harness: c03_filter_outlen_49
+//@ tier: seeded
+//@ group: filter_outlen
+//@ timeout: 900
+//@ mem: 10
+//@ covers: none
+//@ unwindset: memcmp.0=12; burn_string=12; eat_whitespace=6; json_unescape=8; memchr=12; walk_tags=6; read_u64=6; parse_json_filter=12
+//@ encodes: Filter::from_json, parse_json_filter, put
+//@ bounds: the valid text `{"kinds":[1],"#e":["ab"],"limit":3}` parsed into an output buffer of exactly 49 bytes (needs 51), arbitrary prior contents: no panic, error below the needed size
+//@ outside: lengths that are not an instance of this family; arbitrary input bytes at this level (decided on the kernels; thorough: c03_tags_arb2 / c03_filter_arb3)
+#[kani::proof]
+#[kani::unwind(8)]
+#[kani::stub(core::panic::Location::caller, stub_caller)]
+fn c03_filter_outlen_49() {
+    filter_outlen_at(49);
+}
+
+//@ harness: c03_filter_outlen_50
+//@ tier: quick
+//@ timeout: 900
+//@ mem: 10
+//@ covers: none
+//@ unwindset: memcmp.0=12; burn_string=12; eat_whitespace=6; json_unescape=8; memchr=12; walk_tags=6; read_u64=6; parse_json_filter=12
+//@ encodes: Filter::from_json, parse_json_filter, put
+//@ bounds: the valid text `{"kinds":[1],"#e":["ab"],"limit":3}` parsed into an output buffer of exactly 50 bytes (needs 51), arbitrary prior contents: no panic, error below the needed size
+//@ outside: lengths that are not an instance of this family; arbitrary input bytes at this level (decided on the kernels; thorough: c03_tags_arb2 / c03_filter_arb3)
+#[kani::proof]
+#[kani::unwind(8)]
+#[kani::stub(core::panic::Location::caller, stub_caller)]
+fn c03_filter_outlen_50() {
+    filter_outlen_at(50);
+}
+
+//@ harness: c03_filter_outlen_51
+//@ tier: quick
+//@ timeout: 900
+//@ mem: 10
+//@ covers: none
+//@ unwindset: memcmp.0=12; burn_string=12; eat_whitespace=6; json_unescape=8; memchr=12; walk_tags=6; read_u64=6; parse_json_filter=12
+//@ encodes: Filter::from_json, parse_json_filter, put
+//@ bounds: the valid text `{"kinds":[1],"#e":["ab"],"limit":3}` parsed into an output buffer of exactly 51 bytes (needs 51), arbitrary prior contents: no panic, error below the needed size
+//@ outside: lengths that are not an instance of this family; arbitrary input bytes at this level (decided on the kernels; thorough: c03_tags_arb2 / c03_filter_arb3)
+#[kani::proof]
+#[kani::unwind(8)]
+#[kani::stub(core::panic::Location::caller, stub_caller)]
+fn c03_filter_outlen_51() {
+    filter_outlen_at(51);
+}
+
+//@ harness: c03_filter_outlen_52
+//@ tier: seeded
+//@ group: filter_outlen
+//@ timeout: 900
+//@ mem: 10
+//@ covers: none
+//@ unwindset: memcmp.0=12; burn_string=12; eat_whitespace=6; json_unescape=8; memchr=12; walk_tags=6; read_u64=6; parse_json_filter=12
+//@ encodes: Filter::from_json, parse_json_filter, put
+//@ bounds: the valid text `{"kinds":[1],"#e":["ab"],"limit":3}` parsed into an output buffer of exactly 52 bytes (needs 51), arbitrary prior contents: no panic, error below the needed size
+//@ outside: lengths that are not an instance of this family; arbitrary input bytes at this level (decided on the kernels; thorough: c03_tags_arb2 / c03_filter_arb3)
+#[kani::proof]
+#[kani::unwind(8)]
+#[kani::stub(core::panic::Location::caller, stub_caller)]
+fn c03_filter_outlen_52() {
+    filter_outlen_at(52);
+}
+
+//@ harness: c03_filter_outlen_54
+//@ tier: seeded
+//@ group: filter_outlen
+//@ timeout: 900
+//@ mem: 10
+//@ covers: none
+//@ unwindset: memcmp.0=12; burn_string=12; eat_whitespace=6; json_unescape=8; memchr=12; walk_tags=6; read_u64=6; parse_json_filter=12
+//@ encodes: Filter::from_json, parse_json_filter, put
+//@ bounds: the valid text `{"kinds":[1],"#e":["ab"],"limit":3}` parsed into an output buffer of exactly 54 bytes (needs 51), arbitrary prior contents: no panic, error below the needed size
+//@ outside: lengths that are not an instance of this family; arbitrary input bytes at this level (decided on the kernels; thorough: c03_tags_arb2 / c03_filter_arb3)
+#[kani::proof]
+#[kani::unwind(8)]
+#[kani::stub(core::panic::Location::caller, stub_caller)]
+fn c03_filter_outlen_54() {
+    filter_outlen_at(54);
 }
 
 // -------------------------------------------------------------- event ------
@@ -559,8 +2064,7 @@ fn c03_event_outlen_o1_143() {
 }
 
 //@ harness: c03_event_outlen_o1_151
-//@ tier: seeded
-//@ group: event_outlen
+//@ tier: quick
 //@ timeout: 1500
 //@ mem: 14
 //@ covers: none
@@ -712,7 +2216,8 @@ fn c03_event_outlen_o1_175() {
 }
 
 //@ harness: c03_event_outlen_o1_176
-//@ tier: quick
+//@ tier: seeded
+//@ group: event_outlen
 //@ timeout: 1500
 //@ mem: 14
 //@ covers: none
@@ -813,8 +2318,7 @@ fn c03_event_outlen_o2_151() {
 }
 
 //@ harness: c03_event_outlen_o2_152
-//@ tier: seeded
-//@ group: event_outlen
+//@ tier: quick
 //@ timeout: 1500
 //@ mem: 14
 //@ covers: none
@@ -966,7 +2470,8 @@ fn c03_event_outlen_o2_176() {
 }
 
 //@ harness: c03_event_outlen_o2_177
-//@ tier: quick
+//@ tier: seeded
+//@ group: event_outlen
 //@ timeout: 1500
 //@ mem: 14
 //@ covers: none
@@ -1012,9 +2517,8 @@ fn event_prefix_at(text: &[u8; 365], n: usize) {
 }
 
 //@ harness: c03_event_prefix_o1_204
-//@ tier: seeded
-//@ group: event_prefix
-//@ timeout: 1500
+//@ tier: thorough
+//@ timeout: 3600
 //@ mem: 14
 //@ covers: none
 //@ unwindset: read_sig=66; read_id=34; read_pubkey=34; read_hex=66; memcmp.0=34; event_outlen_at=400; event_prefix_at=400; read_u64=22; read_kind=8; burn_string=12; eat_whitespace=6; json_unescape=8; memchr=12; parse_json_event=10
@@ -1029,9 +2533,9 @@ fn c03_event_prefix_o1_204() {
 }
 
 //@ harness: c03_event_prefix_o1_205
-//@ tier: seeded
+//@ tier: thorough
 //@ group: event_prefix
-//@ timeout: 1500
+//@ timeout: 3600
 //@ mem: 14
 //@ covers: none
 //@ unwindset: read_sig=66; read_id=34; read_pubkey=34; read_hex=66; memcmp.0=34; event_outlen_at=400; event_prefix_at=400; read_u64=22; read_kind=8; burn_string=12; eat_whitespace=6; json_unescape=8; memchr=12; parse_json_event=10
@@ -1420,7 +2924,8 @@ fn c03_event_prefix_o1_363() {
 }
 
 //@ harness: c03_event_prefix_o1_364
-//@ tier: quick
+//@ tier: seeded
+//@ group: event_prefix
 //@ timeout: 1500
 //@ mem: 14
 //@ covers: none
